@@ -6,10 +6,11 @@ from fractions import Fraction
 
 from ..cfg import CFG
 from ..counting import explore, path_to
-from ..loops import ENV_LOOPS, VECTOR_LOOPS, find_env_loop, dotted
+from ..loops import ENV_LOOPS, VECTOR_LOOPS, find_env_loop, dotted, strip_wrappers
 from ..nf import NF, Scope, Poly, parse_expr
 from ..repo import Repo, loc, short, AnalysisError, param_names
 from ..resolve import Resolver
+from ..sem import same_ingredients
 
 EXPLANATION = (
     "Path counting on the statement CFG. R1 explores the product of the CFG with the integer difference "
@@ -58,6 +59,14 @@ MT_LOOPS = {
 }
 
 
+def _role_param(fn, qual: str, role: str):
+    """Current name of the documented parameter ``role`` of a routine, None when the routine has no such parameter.  Deliberately by name: a
+    parameter that is not in the recorded signature and has a constant default is read by the engine as an option at its default
+    (specialise pass) - its uses in the body are constants then, so looking the role up by position would find a parameter that the body
+    no longer refers to.  A renamed documented parameter therefore means `no obligation / undecided`, never a violation."""
+    return role if role in param_names(fn) else None
+
+
 def _result_field(fn, names):
     """(return node, expr) of the namedtuple field in ``names`` of the function's result."""
     for n in ast.walk(fn):
@@ -72,8 +81,13 @@ def _result_field(fn, names):
 
 
 def _name_plus_const(e):
+    e = strip_wrappers(e) if e is not None else e      # int(step), np.asarray(step): the same number
+    if isinstance(e, ast.BinOp):
+        e = ast.BinOp(left=strip_wrappers(e.left), op=e.op, right=e.right)
     if isinstance(e, ast.Name):
         return e.id, 0
+    if isinstance(e, ast.BinOp) and isinstance(e.op, ast.Add) and isinstance(e.left, ast.Constant) and isinstance(e.left.value, int) and not isinstance(e.left.value, bool) and isinstance(strip_wrappers(e.right), ast.Name):
+        return strip_wrappers(e.right).id, e.left.value          # 1 + step
     if isinstance(e, ast.BinOp) and isinstance(e.left, ast.Name) and isinstance(e.right, ast.Constant) and isinstance(e.right.value, int):
         if isinstance(e.op, ast.Add):
             return e.left.id, e.right.value
@@ -83,14 +97,166 @@ def _name_plus_const(e):
 
 
 def _range_args(it):
-    """For `range/trange(a, b)` or `(b)` return (a expr | None, b expr)."""
-    if isinstance(it, ast.Call) and dotted(it.func).split(".")[-1] in ("range", "trange", "tqdm") and it.args:
+    """For `range/trange(a, b)` or `(b)` return (a expr | None, b expr); (None, None) for anything else (other iterables, a stride)."""
+    if isinstance(it, ast.Call) and dotted(it.func).split(".")[-1] in ("range", "trange", "tqdm") and it.args and not any(isinstance(a, ast.Starred) for a in it.args):
         if dotted(it.func).endswith("tqdm") and isinstance(it.args[0], ast.Call):
             return _range_args(it.args[0])
+        if dotted(it.func).endswith("tqdm"):
+            return None, None
         if len(it.args) == 1:
             return None, it.args[0]
+        if len(it.args) >= 3 and not (isinstance(it.args[2], ast.Constant) and it.args[2].value == 1):
+            return None, None
         return it.args[0], it.args[1]
     return None, None
+
+
+_NEG = {"Lt": "GtE", "LtE": "Gt", "Gt": "LtE", "GtE": "Lt", "Eq": "NotEq", "NotEq": "Eq"}
+
+
+def _loop_carried(cfg, header: int) -> set:
+    """Names (re)defined inside the loop: their value at a test is `the current one`, whatever it is (kept as atoms by the readers below)."""
+    body = cfg.loop_body_nodes(header) | {header}
+    return {d.name for nid in body for d in cfg.nodes[nid].defs}
+
+
+def _loop_state(cfg, header: int) -> set:
+    """Loop-carried names whose value at the loop guard may come from a previous iteration (counters, accumulators, flags, loop indices):
+    defined both before and inside the loop, augmented in place, or running over an iterable.  Temporaries that are recomputed in every
+    iteration are not state - they are read through their definitions."""
+    body = cfg.loop_body_nodes(header) | {header}
+    out = set()
+    for nid in body:
+        for d in cfg.nodes[nid].defs:
+            if d.kind in ("aug", "for"):
+                out.add(d.name)
+    for nm in _loop_carried(cfg, header):
+        ds = cfg.defs_of(header, nm)
+        if any(d.node in body for d in ds) and any(d.node not in body for d in ds):
+            out.add(nm)
+    return out
+
+
+def _gap(nf, sc, cmp, truth, at):
+    """Integer reading of an order comparison: the polynomial D with  (cmp is `truth`)  <=>  D > 0;  None for other comparisons."""
+    if not (isinstance(cmp, ast.Compare) and len(cmp.ops) == 1):
+        return None
+    opn = type(cmp.ops[0]).__name__
+    if not truth:
+        opn = _NEG.get(opn)
+    if opn not in ("Lt", "LtE", "Gt", "GtE"):
+        return None
+    lo, hi = cmp.left, cmp.comparators[0]
+    if opn in ("Gt", "GtE"):
+        lo, hi = hi, lo
+    D = nf.poly(hi, sc, at) - nf.poly(lo, sc, at)
+    return D + Poly.const(1) if opn in ("LtE", "GtE") else D
+
+
+def _offset(D, plus: str, minus: str):
+    """k when D == plus - minus + k for an integer k, else None."""
+    k = (D - Poly.atom(plus) + Poly.atom(minus)).const_value()
+    return int(k) if k is not None and k.denominator == 1 else None
+
+
+def _parse(txt):
+    try:
+        return ast.parse(txt, mode="eval").body
+    except SyntaxError:
+        return None
+
+
+def _tokens(txt) -> set:
+    import re
+    return set(re.findall(r"[A-Za-z_][A-Za-z_0-9]*", txt if isinstance(txt, str) else txt.canon()))
+
+
+def _unread(p, opaque_ok: bool = False) -> bool:
+    """The engine could not read (part of) the value: merged definitions, opaque comprehensions / lambdas, helper temporaries."""
+    import re
+    t = p if isinstance(p, str) else p.canon()
+    return "φ(" in t or (not opaque_ok and ("⟦" in t or "λ[" in t or re.search(r"__i\d+\b", t) is not None))
+
+
+def _free_tokens(txt) -> set:
+    """Identifiers of a canonical text, without the variables bound by comprehensions quoted in it (⟦[f(i) for i in ...]⟧)."""
+    import re
+    txt = txt if isinstance(txt, str) else txt.canon()
+    return _tokens(txt) - set(re.findall(r"\bfor\s+([A-Za-z_][A-Za-z_0-9]*)\s+in\b", txt)) - {"for", "in", "if", "np", "jnp", "numpy"}
+
+
+def _value_names(e) -> set:
+    """Names an expression reads as values (callee names of calls are not values)."""
+    skip = set()
+    for x in ast.walk(e):
+        if isinstance(x, ast.Call):
+            f = x.func
+            while isinstance(f, ast.Attribute):
+                f = f.value
+            if isinstance(f, ast.Name):
+                skip.add(id(f))
+    return {x.id for x in ast.walk(e) if isinstance(x, ast.Name) and id(x) not in skip}
+
+
+_ARITH_CALLS = {"int", "float", "bool", "max", "min", "abs", "round", "len", "sum", "divmod", "pow"}
+
+
+def _flow_names(e, repo=None, mi=None) -> set:
+    """Names whose value flows into the value of ``e`` by arithmetic: arguments of library / builtin functions count, arguments of repository
+    functions and of local callables do not (what such a call returns is not a reading of its arguments)."""
+    out = set()
+
+    def walk(x):
+        if isinstance(x, ast.Call):
+            d = dotted(x.func)
+            r = repo.resolve_expr(mi, x.func) if repo is not None and mi is not None and isinstance(x.func, (ast.Name, ast.Attribute)) else None
+            lib = d in _ARITH_CALLS or (r is not None and r.split(".")[0] in ("numpy", "jax", "math", "builtins"))
+            if not lib:
+                return
+        if isinstance(x, (ast.Lambda, ast.ListComp, ast.SetComp, ast.DictComp, ast.GeneratorExp)):
+            return
+        if isinstance(x, ast.Name):
+            out.add(x.id)
+        for ch in ast.iter_child_nodes(x):
+            walk(ch)
+    walk(e)
+    return out
+
+
+def _derived(cfg, roots: set, repo=None, mi=None) -> set:
+    """Names whose value (transitively) is computed from one of ``roots`` somewhere in the function (flow-insensitive)."""
+    out = set(roots)
+    changed = True
+    while changed:
+        changed = False
+        for n in cfg.nodes:
+            for d in n.defs:
+                if d.name in out or d.value is None or d.kind == "param":
+                    continue
+                v = d.value.value if isinstance(d.value, ast.AugAssign) else d.value
+                if isinstance(v, ast.AST) and _flow_names(v, repo, mi) & out:
+                    out.add(d.name)
+                    changed = True
+    return out
+
+
+def _fresh(cfg, header: int, e, at: int, state: set, depth: int = 0) -> bool:
+    """Every loop-state variable the expression reads at node ``at`` (directly or through temporaries) still has the value it had when the
+    loop guard was evaluated (it is not read after its update in the same iteration)."""
+    rd = cfg.reaching()
+    for x in ast.walk(e):
+        if not (isinstance(x, ast.Name) and isinstance(x.ctx, ast.Load)):
+            continue
+        if x.id in state:
+            if at != header and rd[at].get(x.id) not in (rd[header].get(x.id), frozenset([(header, x.id)])):      # (the target of a for header is set by the header)
+                return False
+            continue
+        ds = cfg.defs_of(at, x.id)
+        for d in ds:
+            v = d.value.value if isinstance(d.value, ast.AugAssign) else d.value
+            if d.kind in ("assign", "unpack", "walrus", "aug") and isinstance(v, ast.AST) and depth < 4 and not _fresh(cfg, header, v, d.node, state, depth + 1):
+                return False
+    return True
 
 
 # ---------------------------------------------------------------------------------------------------
@@ -103,7 +269,8 @@ def r1_count(ck, repo, L, start_param="global_step"):
     ck.need(rnode is not None, f"{site}: no result field {COUNTER_FIELDS} (anchor vanished)")
     c, kret = _name_plus_const(rexpr)
     ck.need(c is not None, f"{site}: returned counter `{short(rexpr)}` is not `name +/- const` (unrecognised idiom)")
-    ck.need(start_param in param_names(fn), f"{site}: no `{start_param}` parameter")
+    ck.need(_role_param(fn, site, start_param) is not None, f"{site}: no `{start_param}` parameter")
+    start_param = _role_param(fn, site, start_param)
     ret_id = cfg.node_of(rnode).id
     # tracked variables: closure of c under `v = w + k` copies and for-range targets
     tracked = {c}
@@ -147,9 +314,11 @@ def r1_count(ck, repo, L, start_param="global_step"):
             else:
                 raise AnalysisError(f"{site}: unrecognised definition of counter `{d.name}`: {short(n.ast)}")
     init = tuple(0 if v == start_param else None for v in order)
+    # the tests that decide whether a counter update / env.step / a jump is executed: only their outcomes are remembered along a path
+    relevant = {b for n in cfg.nodes if n.id in events or n.id == S or (n.kind == "stmt" and isinstance(n.ast, (ast.Break, ast.Continue, ast.Return))) for b, _ in cfg.control_deps(n.id)}
 
     def transfer(nid, succ, lab, st):
-        ds, entered, stepped, broke = st
+        ds, entered, stepped, broke, lits = st
         ds = list(ds)
         if nid == S:
             ds = [None if x is None else x + 1 for x in ds]
@@ -157,6 +326,16 @@ def r1_count(ck, repo, L, start_param="global_step"):
         node = cfg.nodes[nid]
         if isinstance(node.ast, ast.Break) and node.kind == "stmt":
             broke = True
+        if nid in relevant and node.kind == "test" and hasattr(node.ast, "test") and lab in (True, False):
+            # branches over the same condition stay correlated along a path (`if done: ... if done:`): no witness through both arms
+            v = cfg.eval3(node.ast.test, dict(lits), nid)
+            if v is not None and v != lab:
+                return None
+            newl = cfg._lits(node.ast.test, lab, nid)
+            if any((k_, not v_) in lits for k_, v_ in newl):
+                return None
+            lits = lits | frozenset(newl)
+        lits = cfg.propagate(succ, lits)
         for ev in events.get(nid, []):
             i = idx[ev[1]]
             if ev[0] == "inc":
@@ -173,12 +352,12 @@ def r1_count(ck, repo, L, start_param="global_step"):
                     entered = entered | {nid}
                 else:
                     ds[i] = ds[i] - 1
-        return (tuple(ds), entered, stepped, broke)
+        return (tuple(ds), entered, stepped, broke, lits)
 
     def bound(st):
         return all(x is None or -4 <= x <= 4 for x in st[0])
 
-    parent, problems = explore(cfg, (init, frozenset(), False, False), transfer, bound=bound)
+    parent, problems = explore(cfg, (init, frozenset(), False, False, frozenset()), transfer, bound=bound, max_states=200000)
     finals = {}
     ci = idx[c]
     for (nid, st), par in parent.items():
@@ -196,6 +375,9 @@ def r1_count(ck, repo, L, start_param="global_step"):
         wit = None if ok else _compress(cfg, path)
         ck.ob("R1-count", site, f"{kind}:delta={delta}", ok, f"return field {fld} = `{short(rexpr)}` on {kind} path", why, loc(L.mi, rnode), wit)
     for nid, st, text, key in problems[:2]:
+        if st[0][ci] is None or -4 <= st[0][ci] <= 4:
+            # another tracked variable left the range: the exploration was cut there and says nothing about the reported counter
+            raise AnalysisError(f"{site}: an auxiliary counter ({[v for v in order if st[0][idx[v]] is not None and not -4 <= st[0][idx[v]] <= 4][:1]}) is not in step with env.step (unrecognised form)")
         ck.ob("R1-count", site, "drift", False, f"counter `{c}`", text + " - the counter is not advanced once per env.step", loc(L.mi, cfg.nodes[nid].ast), _compress(cfg, [k[0] for k in path_to(parent, key)]))
 
 
@@ -214,139 +396,398 @@ def _compress(cfg, path, keep=14):
 
 
 # ---------------------------------------------------------------------------------------------------
-def r2_budget(ck, repo, L):
+def _step_guard_literals(cfg, L):
+    """[(test node, comparison AST, truth)]: the comparisons that hold whenever env.step executes - the tests env.step is control dependent on
+    (loop guards included, conjunctions split, named conditions expanded) and the branches that dominate it with a single arm leading to it
+    (`if counter >= budget: break`)."""
+    S = L.step_node
+    out, seen = [], set()
+
+    def add(b, lab):
+        bn = cfg.nodes[b]
+        if bn.kind == "test" and hasattr(bn.ast, "test"):
+            for txt, truth in cfg._lits(bn.ast.test, lab, b):
+                e = _parse(txt)
+                if isinstance(e, ast.Compare):
+                    out.append((b, e, truth))
+    for b, lab in cfg.control_deps(S):
+        seen.add(b)
+        add(b, lab)
+    rd = cfg.reaching()
+    for bn in cfg.nodes:
+        if bn.kind != "test" or not isinstance(bn.ast, ast.If) or bn.id in seen or bn.id == S or not cfg.dominates(bn.id, S):
+            continue
+        reach = {lab: cfg.paths_avoiding(bn.id, S, set(), feasible=False, first_label=lab) is not None for lab in (True, False)}
+        if reach[True] == reach[False]:
+            continue
+        names = {x.id for x in ast.walk(bn.ast.test) if isinstance(x, ast.Name)}
+        if all(rd[S].get(nm) == rd[bn.id].get(nm) for nm in names):
+            add(bn.id, True if reach[True] else False)
+    return out
+
+
+def _unit_counter(cfg, L, c: str, start_param: str) -> bool:
+    """``c`` starts at the starting count and every update inside the loop adds one: c - start counts the guard evaluations."""
+    body = cfg.loop_body_nodes(L.outer_header)
+    has_start = start_param in param_names(L.fn)
+    for n in cfg.nodes:
+        for d in n.defs:
+            if d.name != c:
+                continue
+            if n.id in body:
+                s = n.ast
+                if d.kind == "aug" and isinstance(s.op, ast.Add) and isinstance(s.value, ast.Constant) and s.value.value == 1:
+                    continue
+                if d.kind == "assign" and _name_plus_const(d.value) == (c, 1):
+                    continue
+                return False
+            if d.kind == "param":
+                if has_start and c != start_param:
+                    return False
+                continue
+            if d.kind != "assign":
+                return False
+            if has_start:
+                if _name_plus_const(d.value) != (start_param, 0):
+                    return False
+            elif not (isinstance(d.value, ast.Constant) and d.value.value == 0 and not isinstance(d.value.value, bool)):
+                return False
+    return True
+
+
+def _budget_reading(repo, L):
+    """How the loop that executes env.step is bounded by the step budget B (read semantically: aliases, int(...), either orientation,
+    `c + 1 <= B`, `B - c > 0`, a guard clause in the body).
+    While loops: ("while", guard nodes, counter, k, text) where the strongest comparison guarding env.step is  counter < B + k.
+    For loops:   ("for", {header}, target | None, k | None, text) where the loop runs  B - start + k  times (k None: not readable)."""
+    if getattr(L, "_budget_reading", None) is not None:
+        return L._budget_reading
     cfg, site = L.cfg, L.qual
     hdr = cfg.nodes[L.outer_header]
     s = hdr.ast
-    where = loc(L.mi, s)
-    budgets = [p for p in param_names(L.fn) if p in BUDGET_PARAMS]
-    ck.need(budgets, f"{site}: no budget parameter {BUDGET_PARAMS}")
+    budgets = [_role_param(L.fn, site, p) for p in BUDGET_PARAMS if _role_param(L.fn, site, p) is not None]
+    if not budgets:
+        raise AnalysisError(f"{site}: no budget parameter {BUDGET_PARAMS}")
     B = budgets[0]
+    START = _role_param(L.fn, site, "global_step")
+    nfq = NF(repo, inline_calls=False)
+    carried = _loop_carried(cfg, L.outer_header)
+    state = _loop_state(cfg, L.outer_header)
+    sc = Scope(cfg, L.mi, {}, site)
+    sc.opaque_names = set(state)
+    bnames = _derived(cfg, {B}, repo, L.mi)
     if isinstance(s, ast.While):
-        t = s.test
-        ok, why = False, f"loop guard `{short(t)}` is not `<counter> < {B}`"
-        if isinstance(t, ast.Compare) and len(t.ops) == 1:
-            l, r, op = t.left, t.comparators[0], t.ops[0]
-            if isinstance(op, (ast.Gt, ast.GtE)):
-                l, r = r, l
-                op = ast.Lt() if isinstance(op, ast.Gt) else ast.LtE()
-            if isinstance(l, ast.Name) and isinstance(r, ast.Name) and r.id == B:
-                if isinstance(op, ast.Lt):
-                    ok, why = True, ""
-                else:
-                    why = f"budget guard `{short(t)}` is not strict: one step beyond the budget is executed"
-        if not ok and not (isinstance(t, ast.Compare) and len(t.ops) == 1 and any(isinstance(x, ast.Name) and x.id == B for x in ast.walk(t))):
-            # `while True: if not counter < budget: break ...`: the guard sits in the body; it must hold on every path to env.step
-            from ..sem import guard_literals
-            nfq = NF(repo, inline_calls=False)
-            lits = guard_literals(nfq, cfg, L.mi, L.step_node)
-            import re as _re
-            strict = [g for g in lits if _re.fullmatch(rf"Lt\([A-Za-z_][A-Za-z_0-9]*, {B}\)", g)]
-            loose = [g for g in lits if _re.fullmatch(rf"LtE\([A-Za-z_][A-Za-z_0-9]*, {B}\)", g)]
-            if strict:
-                ok, why = True, ""
-                t = ast.parse(strict[0].replace("Lt(", "").replace(")", "").replace(", ", " < "), mode="eval").body
-            elif loose:
-                ok, why = False, f"budget guard `{loose[0]}` is not strict: one step beyond the budget is executed"
-            else:
-                raise AnalysisError(f"{site}: no comparison of a counter with `{B}` guards env.step (loop guard `{short(s.test)}`: unrecognised form)")
-        ck.ob("R2-budget", site, "while-guard", ok, f"while {short(s.test)}" + (f" / {short(t)}" if t is not s.test else ""), why, where)
+        cands, unread = [], []
+        for b, e, truth in _step_guard_literals(cfg, L):
+            D = _gap(nfq, sc, e, truth, b)
+            mentions = bool({x.id for x in ast.walk(e) if isinstance(x, ast.Name)} & bnames)
+            hit = None
+            if D is not None and not _unread(D) and _fresh(cfg, L.outer_header, e, b, state):
+                for c in sorted(a for a in D.atoms() if a in state):
+                    k = _offset(D, B, c)
+                    if k is not None:
+                        hit = (b, c, k, short(e, 60) if truth else f"not ({short(e, 60)})")
+            if hit is not None:
+                cands.append(hit)
+            elif mentions:
+                unread.append(short(e, 60))
+        if not cands:
+            raise AnalysisError(f"{site}: no comparison of a step counter with `{B}` guards env.step (loop guard `{short(s.test, 60)}`{', ' + str(unread[:2]) if unread else ''}: unrecognised form)")
+        kmin = min(k for _, _, k, _ in cands)
+        best = [x for x in cands if x[2] == kmin]
+        out = ("while", {x[0] for x in best}, best[0][1], kmin, best[0][3], B)
     elif isinstance(s, ast.For):
         a, b = _range_args(s.iter)
-        ok = isinstance(b, ast.Name) and b.id == B
-        ck.ob("R2-budget", site, "for-range", ok, f"for {short(s.target)} in {short(s.iter)}", "" if ok else f"range bound is not the budget `{B}`", where)
+        if b is None:
+            raise AnalysisError(f"{site}: the main loop iterates over `{short(s.iter, 60)}`, not over a range (unrecognised form)")
+        body = cfg.loop_body_nodes(L.outer_header)
+        # the range arguments are evaluated once, before the loop: names the loop redefines stand for their value on entry
+        pre = {}
+        for nm in {x.id for e in (a, b) if e is not None for x in ast.walk(e) if isinstance(x, ast.Name)} & carried:
+            ds = [d for d in cfg.defs_of(hdr.id, nm) if d.node not in body and d.node != hdr.id]
+            if len(ds) != 1:
+                raise AnalysisError(f"{site}: `{nm}` in `{short(s.iter, 60)}` has {len(ds)} definitions before the loop (unrecognised form)")
+            pre[nm] = nfq._def_value(ds[0], Scope(cfg, L.mi, {}, site), 0)
+        pb = nfq.poly(b, sc, hdr.id).subst(pre)
+        pa = nfq.poly(a, sc, hdr.id).subst(pre) if a is not None else Poly.const(0)
+        PB = Poly.atom(B)
+        start = Poly.atom(START) if START is not None else Poly.const(0)
+        k = None
+        if not _unread(pb) and not _unread(pa):
+            for trips in (PB - pa, PB - start):             # `range(a, B)`, or as many iterations as the remaining budget
+                kk = (pb - pa - trips).const_value()
+                if kk is not None and kk.denominator == 1 and (k is None or abs(kk) < abs(k)):
+                    k = int(kk)
+        out = ("for", {hdr.id}, s.target.id if isinstance(s.target, ast.Name) else None, k, short(s.iter, 70), B)
     else:
         raise AnalysisError(f"{site}: unrecognised loop kind")
-    one = L.loop_header == L.outer_header
-    ck.ob("R2-budget", site, "one-step-per-guard", one, f"env.step directly in the guarded loop", "" if one else "env.step sits in an inner loop that does not re-check the step budget", where)
-    # the step statement is executed at most once per iteration: no second env.step call in the body
-    steps = 0
-    for nid in cfg.loop_body_nodes(L.outer_header):
+    L._budget_reading = out
+    return out
+
+
+def r2_budget(ck, repo, L):
+    cfg, site, S = L.cfg, L.qual, L.step_node
+    hdr = cfg.nodes[L.outer_header]
+    s = hdr.ast
+    where = loc(L.mi, s)
+    kind, guards, cvar, k, text, B = _budget_reading(repo, L)
+    if kind == "while":
+        ok = k == 0
+        if not ok and not _unit_counter(cfg, L, cvar, _role_param(L.fn, site, "global_step") or "global_step"):
+            raise AnalysisError(f"{site}: env.step runs while `{text}`, and `{cvar}` is not a plain step counter (unrecognised form)")
+        why = "" if ok else (f"env.step runs while `{text}`, i.e. while {cvar} < {B} + {k}: " + (f"{k} step(s) beyond the budget are executed (the budget guard must be strict)" if k > 0 else f"the run stops {-k} step(s) short of its budget"))
+        ck.ob("R2-budget", site, "while-guard", ok, f"while {short(s.test)}" + (f" / {text}" if guards != {hdr.id} else ""), why, where)
+    else:
+        if k is None:
+            raise AnalysisError(f"{site}: cannot relate the range `{text}` to the budget `{B}` (unrecognised form)")
+        ck.ob("R2-budget", site, "for-range", k == 0, f"for {short(s.target)} in {text}", "" if k == 0 else f"the loop runs {B} - start {'+' if k > 0 else '-'} {abs(k)} times: the range bound is not the budget `{B}`", where)
+    bnames = _derived(cfg, {B}, repo, L.mi)
+
+    def trusted(path):
+        # a witness through a test that involves the budget in a way this rule did not read is not evidence
+        for x in path[1:-1]:
+            nx = cfg.nodes[x]
+            e = nx.ast.test if nx.kind == "test" and hasattr(nx.ast, "test") else nx.ast.iter if nx.kind == "for" else None
+            if e is not None and x not in guards and {y.id for y in ast.walk(e) if isinstance(y, ast.Name)} & bnames:
+                raise AnalysisError(f"{site}: whether the budget is re-checked before the next env.step depends on `{short(e, 50)}` (unrecognised form)")
+        return path
+    # one env.step per evaluation of the budget guard: no way from env.step back to env.step that does not pass the guard
+    p = cfg.paths_avoiding(S, S, set(guards))
+    if p is not None:
+        trusted(p)
+    ck.ob("R2-budget", site, "one-step-per-guard", p is None, "every way from env.step back to env.step passes the budget guard", "" if p is None else "env.step is repeated (inner loop) without re-checking the step budget", where,
+          cfg.describe_path(p) if p else None)
+    # no second env.step call between two evaluations of the guard
+    second = None
+    n_calls = 1
+    for nid in sorted(cfg.loop_body_nodes(L.outer_header)):
         n = cfg.nodes[nid]
-        if n.ast is None or n.kind not in ("stmt",):
+        if n.ast is None or nid == S:
             continue
-        for c in ast.walk(n.ast):
-            if isinstance(c, ast.Call) and isinstance(c.func, ast.Attribute) and c.func.attr == "step" and dotted(c.func.value) == L.env:
-                steps += 1
-    ck.ob("R2-budget", site, "single-step-call", steps == 1, f"{steps} env.step call(s) per iteration", "" if steps == 1 else "more than one env.step per budget check", where)
+        e = n.ast.test if n.kind == "test" and hasattr(n.ast, "test") else n.ast.iter if n.kind == "for" else n.ast if n.kind == "stmt" else None
+        if e is None or not any(isinstance(c, ast.Call) and isinstance(c.func, ast.Attribute) and c.func.attr == "step" and dotted(c.func.value) == L.env for c in ast.walk(e)):
+            continue
+        n_calls += 1
+        q = cfg.paths_avoiding(S, nid, set(guards)) or cfg.paths_avoiding(nid, S, set(guards))
+        if q is None:
+            raise AnalysisError(f"{site}: a second env.step call `{short(n.ast, 50)}` that is never executed together with the main one (unrecognised form)")
+        second = second or trusted(q)
+    ck.ob("R2-budget", site, "single-step-call", second is None, f"{n_calls} env.step call(s) per budget check", "" if second is None else "more than one env.step per budget check", where,
+          cfg.describe_path(second) if second else None)
 
 
-def _done_test(cfg, L):
+_LOGICAL = {"logical_or": "or", "logical_and": "and", "logical_not": "not", "bitwise_or": "or", "bitwise_and": "and"}
+
+
+def _row_value(L, e, at, a, b, depth=0):
+    """Value of the boolean expression ``e`` at node ``at`` when the latest env.step returned (terminated, truncated) = (a, b); None when it
+    is not a function of the two flags this reader understands.  Reads through value-transparent wrappers (bool(...), np.asarray(...)),
+    `|` / `&` / np.logical_or / np.logical_and / np.logical_not and through flags computed since that step (`done = bool(term or trunc)`)."""
+    cfg, S = L.cfg, L.step_node
+    e = strip_wrappers(e)
+    if isinstance(e, ast.Constant) and isinstance(e.value, bool):
+        return e.value
+    if isinstance(e, ast.UnaryOp) and isinstance(e.op, (ast.Not, ast.Invert)):
+        v = _row_value(L, e.operand, at, a, b, depth)
+        return None if v is None else not v
+    parts = op = None
+    if isinstance(e, ast.BoolOp):
+        parts, op = e.values, "or" if isinstance(e.op, ast.Or) else "and"
+    elif isinstance(e, ast.BinOp) and isinstance(e.op, (ast.BitOr, ast.BitAnd)):
+        parts, op = [e.left, e.right], "or" if isinstance(e.op, ast.BitOr) else "and"
+    elif isinstance(e, ast.Call) and dotted(e.func).split(".")[-1] in _LOGICAL and not e.keywords and 1 <= len(e.args) <= 2:
+        op = _LOGICAL[dotted(e.func).split(".")[-1]]
+        if op == "not":
+            v = _row_value(L, e.args[0], at, a, b, depth)
+            return None if v is None else not v
+        parts = e.args
+    if parts is not None:
+        vals = [_row_value(L, x, at, a, b, depth) for x in parts]
+        if op == "or":
+            return True if any(v is True for v in vals) else False if all(v is False for v in vals) else None
+        return False if any(v is False for v in vals) else True if all(v is True for v in vals) else None
+    if isinstance(e, ast.Name) and depth < 4:
+        ds = cfg.defs_of(at, e.id)
+        if len(ds) != 1:
+            return None
+        d = ds[0]
+        if d.node == S:
+            return a if d.kind == "unpack" and d.path == (2,) else b if d.kind == "unpack" and d.path == (3,) else None
+        val = d.value if d.kind in ("assign", "walrus") else None
+        if d.kind == "unpack" and isinstance(d.value, (ast.Tuple, ast.List)) and len(d.path) == 1 and isinstance(d.path[0], int) and d.path[0] < len(d.value.elts) \
+                and not any(isinstance(x, ast.Starred) for x in d.value.elts):
+            val = d.value.elts[d.path[0]]          # element-wise copy `a, b = (x, y)` (also what an expanded helper's return becomes)
+        if val is None or d.node == at:
+            return None
+        # the flag must have been computed from this step's results: env.step -> its definition -> here, on every path
+        if cfg.paths_avoiding(S, at, {d.node}, feasible=False) is not None:
+            return None
+        return _row_value(L, val, d.node, a, b, depth + 1)
+    return None
+
+
+def _row_facts(L, nid, a, b) -> dict:
+    """Truth values, in the row (terminated, truncated) = (a, b), of the names a test reads that are flags computed from the two results."""
+    n = L.cfg.nodes[nid]
+    out = {}
+    if n.kind == "test" and hasattr(n.ast, "test"):
+        for x in ast.walk(n.ast.test):
+            if isinstance(x, ast.Name) and x.id not in out and x.id not in (L.pos.get(2), L.pos.get(3)):
+                v = _row_value(L, x, nid, a, b)
+                if v is not None:
+                    out[x.id] = v
+    return out
+
+
+def _done_test(cfg, L, repo=None):
     """The If node that is True exactly when the episode ended (three rows True, (F,F) False)."""
     tv, uv = L.pos.get(2), L.pos.get(3)
     out = []
+    ROWS = ((True, False), (False, True), (True, True), (False, False))
+    facts = {r_: (_row_at_node(L, repo, *r_) if repo is not None else (lambda nid_, r_=r_: _row_facts(L, nid_, *r_))) for r_ in ROWS}
     for nid in cfg.loop_body_nodes(L.outer_header):
         n = cfg.nodes[nid]
         if n.kind != "test" or not isinstance(n.ast, ast.If):
             continue
         rows = []
-        for a, b in ((True, False), (False, True), (True, True), (False, False)):
-            rows.append(cfg.eval3(n.ast.test, {tv: a, uv: b}, nid))
+        for a, b in ROWS:
+            v = cfg.eval3(n.ast.test, {tv: a, uv: b, **facts[(a, b)](nid)}, nid)
+            rows.append(v if v is not None else _row_value(L, n.ast.test, nid, a, b))
         names = {x.id for x in ast.walk(n.ast.test) if isinstance(x, ast.Name)}
+        flags = {tv, uv} | {x for x in names if _row_value(L, ast.Name(id=x, ctx=ast.Load()), nid, True, False) is not None}
+        if facts[(True, False)](nid):
+            flags |= names                 # the test reads a record field / flag that holds one of the two results
         if rows == [True, True, True, False]:
             out.append((nid, True))
         elif rows == [False, False, False, True]:
             out.append((nid, False))   # `if not done: ... continue`: the episode-end code is the False arm
-        elif rows[2] is True and rows[3] is False and ({tv, uv} & names or rows[0] is not None):
+        elif rows[2] is True and rows[3] is False and (flags & names or rows[0] is not None):
             out.append((nid, True))  # e.g. `if terminated:` - incomplete test, judged by R3; still the episode-end branch for counting
-        elif rows[2] is False and rows[3] is True and ({tv, uv} & names or rows[0] is not None):
+        elif rows[2] is False and rows[3] is True and (flags & names or rows[0] is not None):
             out.append((nid, False))
     return sorted(out)
 
 
+def _executable_rows(L, repo, nodes_path, what: str):
+    """A witness found by the path exploration (which keeps branches over the same condition correlated, nothing more) is evidence only if
+    every stretch between two env.step calls can be executed with ONE value of (terminated, truncated), and no test on it that depends on
+    the two results stayed open.  Raises AnalysisError otherwise."""
+    cfg, S = L.cfg, L.step_node
+    tv, uv = L.pos.get(2), L.pos.get(3)
+    segs, cur = [], None
+    for n1, n2 in zip(nodes_path, nodes_path[1:]):
+        if n1 == S:
+            cur = []
+            segs.append(cur)
+        if cur is not None:
+            cur.append((n1, n2))
+    for seg in segs:
+        good = None
+        for a, b in ((False, False), (True, False), (False, True), (True, True)):
+            at_node = _row_at_node(L, repo, a, b)
+            okrow = True
+            for n1, n2 in seg:
+                node = cfg.nodes[n1]
+                if node.kind != "test" or not hasattr(node.ast, "test"):
+                    continue
+                labs = {lab for s_, lab in node.succ if s_ == n2}
+                if len(labs) != 1 or next(iter(labs)) not in (True, False):
+                    continue
+                v = cfg.eval3(node.ast.test, {tv: a, uv: b, **at_node(n1)}, n1)
+                if v is not None and v != next(iter(labs)):
+                    okrow = False
+                    break
+            if okrow:
+                good = (a, b)
+                break
+        if good is None:
+            raise AnalysisError(f"{L.qual}: {what}: the only witness found takes branches that exclude each other for every (terminated, truncated) value (unrecognised form)")
+        _trust_row_witness(L, repo, [n1 for n1, _ in seg], good[0], good[1], what)
+
+
 def r2_episodes(ck, repo, L):
     cfg, site, fn = L.cfg, L.qual, L.fn
-    if "total_episodes" not in param_names(fn):
+    E = _role_param(fn, site, "total_episodes")
+    if E is None:
         return
+    tv, uv = L.pos.get(2), L.pos.get(3)
+    enames = _derived(cfg, {E}, repo, L.mi)
     tests = []
     for n in cfg.nodes:
         if n.kind == "test" and isinstance(n.ast, ast.If):
-            for x in ast.walk(n.ast.test):
-                if isinstance(x, ast.Compare) and any(isinstance(y, ast.Name) and y.id == "total_episodes" for y in ast.walk(x)) and not any(isinstance(o, (ast.Is, ast.IsNot)) for o in x.ops):
-                    tests.append((n, x))
+            # the comparisons the test is made of, named conditions expanded (`limit_reached = total_episodes is not None and ...; if limit_reached:`)
+            exprs = [n.ast.test] + [e_ for lab in (True, False) for txt_, _ in cfg._lits(n.ast.test, lab, n.id) for e_ in [_parse(txt_)] if e_ is not None]
+            seen_ = set()
+            for e_ in exprs:
+                for x in ast.walk(e_):
+                    if isinstance(x, ast.Compare) and ast.dump(x) not in seen_ and any(isinstance(y, ast.Name) and y.id in enames for y in ast.walk(x)) and not any(isinstance(o, (ast.Is, ast.IsNot)) for o in x.ops):
+                        seen_.add(ast.dump(x))
+                        tests.append((n, x))
+    nfq = NF(repo, inline_calls=False)
+    state = _loop_state(cfg, L.outer_header)
+    sc = Scope(cfg, L.mi, {}, site)
+    sc.opaque_names = set(state)
     if not tests:
         # episode-budget idiom (CMA-ES): `for _ in range(total_episodes)` with one episode per outer iteration
         hdr = cfg.nodes[L.outer_header].ast
         a, b = _range_args(hdr.iter) if isinstance(hdr, ast.For) else (None, None)
-        ck.need(isinstance(b, ast.Name) and b.id == "total_episodes", f"{site}: `total_episodes` parameter but neither a comparison nor a range over it (anchor vanished)")
+        ck.need(b is not None and (a is None or (isinstance(a, ast.Constant) and a.value == 0)) and (nfq.poly(b, sc, L.outer_header) - Poly.atom(E)).is_zero(),
+                f"{site}: `total_episodes` parameter but neither a comparison nor a range over it (anchor vanished)")
         ck.ob("R2-episodes", site, "for-range", True, f"for ... in {short(hdr.iter)}", "", loc(L.mi, hdr))
-        tv, uv = L.pos.get(2), L.pos.get(3)
         for x, y in ((True, False), (False, True), (True, True)):
-            p = cfg.paths_avoiding(L.step_node, L.step_node, {L.outer_header}, assume={tv: x, uv: y})
+            p = cfg.paths_avoiding(L.step_node, L.step_node, {L.outer_header}, assume={tv: x, uv: y}, at_node=_row_at_node(L, repo, x, y))
+            if p is not None:
+                _trust_row_witness(L, repo, p, x, y, "whether an ended episode is continued in the same outer iteration")
             ck.ob("R2-episodes", site, f"one-episode-per-iteration:{x},{y}", p is None, f"terminated={x},truncated={y}: next env.step only in the next outer iteration",
                   "" if p is None else "an ended episode is continued inside the same outer iteration: more episodes than requested are run", loc(L.mi, L.step_stmt),
                   cfg.describe_path(p) if p else None)
         return
-    done_nodes = _done_test(cfg, L)
+    done_nodes = _done_test(cfg, L, repo)
     ck.need(len(done_nodes) >= 1, f"{site}: cannot identify the episode-end test")
+    exits = {}
     for n, cmp in tests:
         where = loc(L.mi, n.ast)
-        l, r, op = cmp.left, cmp.comparators[0], cmp.ops[0]
-        if isinstance(r, ast.Name) and r.id == "total_episodes" and isinstance(l, ast.Name):
-            epi, opn = l.id, type(op).__name__
-        elif isinstance(l, ast.Name) and l.id == "total_episodes" and isinstance(r, ast.Name):
-            epi, opn = r.id, {"Lt": "Gt", "LtE": "GtE", "Gt": "Lt", "GtE": "LtE"}.get(type(op).__name__, type(op).__name__)
-        else:
-            raise AnalysisError(f"{site}: unrecognised episode-limit comparison `{short(cmp)}`")
         # which arm of the test leaves the loop?  the comparison is read with the polarity it has on that arm (De Morgan / negated forms)
         leaves = {lab: cfg.paths_avoiding(n.id, L.step_node, set(), first_label=lab) is None for lab in (True, False)}
         if leaves[True] == leaves[False]:
             raise AnalysisError(f"{site}: cannot tell which arm of `{short(n.ast.test, 60)}` ends the run (unrecognised form)")
         exit_lab = True if leaves[True] else False
+        exits[n.id] = exit_lab
         pol = None
         for txt_, truth_ in cfg._lits(n.ast.test, exit_lab, n.id):
-            try:
-                e_ = ast.parse(txt_, mode="eval").body
-            except SyntaxError:
-                continue
-            if ast.dump(e_) == ast.dump(cmp):
+            e_ = _parse(txt_)
+            if e_ is not None and ast.dump(e_) == ast.dump(cmp):
                 pol = truth_
         if pol is None:
             raise AnalysisError(f"{site}: the episode-limit comparison `{short(cmp)}` is not decided by the exit arm of `{short(n.ast.test, 60)}` (unrecognised form)")
-        if not pol:
-            opn = {"Lt": "GtE", "LtE": "Gt", "Gt": "LtE", "GtE": "Lt", "Eq": "NotEq", "NotEq": "Eq"}.get(opn, opn)
-        ok = opn in ("GtE", "Eq")
-        ck.ob("R2-episodes", site, "comparison", ok, f"`{short(cmp)}` ({'holds' if pol else 'fails'} on the exit arm)", "" if ok else f"the run ends when `{epi} {opn} total_episodes`: the routine runs past the requested number of episodes (or never stops)", where)
+        # semantic reading of the comparison on the exit arm (either orientation, `c + 1 > E`, `E - c <= 0`, aliases):
+        #   the run ends iff  epi >= total_episodes + shift   (order comparison)   /   epi == total_episodes   (equality)
+        if len(cmp.ops) != 1:
+            raise AnalysisError(f"{site}: unrecognised episode-limit comparison `{short(cmp)}`")
+        opn = type(cmp.ops[0]).__name__ if pol else _NEG.get(type(cmp.ops[0]).__name__)
+        epi = shift = None
+        reversed_ = False
+        if opn in ("Lt", "LtE", "Gt", "GtE"):
+            D = _gap(nfq, sc, cmp, pol, n.id)                 # exit  <=>  D > 0
+            for c_ in sorted(a_ for a_ in D.atoms() if a_ in state) if not _unread(D) else []:
+                k_ = _offset(D, c_, E)                          # D = c - E + k  :  exit <=> c >= E - k + 1
+                if k_ is not None:
+                    epi, shift = c_, 1 - k_
+                k_ = _offset(D, E, c_)                          # D = E - c + k  :  exit <=> c < E + k   (the run ends while the limit is NOT reached)
+                if k_ is not None:
+                    epi, reversed_ = c_, True
+        elif opn in ("Eq", "NotEq"):
+            D = nfq.poly(cmp.left, sc, n.id) - nfq.poly(cmp.comparators[0], sc, n.id)
+            for c_ in sorted(a_ for a_ in D.atoms() if a_ in state) if not _unread(D) else []:
+                if _offset(D, c_, E) == 0 or _offset(D, E, c_) == 0:
+                    epi, shift, reversed_ = c_, 0, opn == "NotEq"
+        if epi is None:
+            raise AnalysisError(f"{site}: unrecognised episode-limit comparison `{short(cmp)}`")
+        ok = not reversed_
+        ck.ob("R2-episodes", site, "comparison", ok, f"`{short(cmp)}` ({'holds' if pol else 'fails'} on the exit arm)",
+              "" if ok else f"the run ends when `{short(cmp)}` {'holds' if pol else 'fails'}, i.e. while `{epi}` has NOT reached total_episodes: it stops at once or never", where)
+        if not ok:
+            continue
         # episode counter == finished episodes at the test
         events = {}
         for m in cfg.nodes:
@@ -354,24 +795,23 @@ def r2_episodes(ck, repo, L):
                 if d.name != epi or d.kind == "param":
                     continue
                 s = m.ast
-                if d.kind == "aug" and isinstance(s.op, ast.Add) and isinstance(s.value, ast.Constant):
+                if d.kind == "aug" and isinstance(s.op, ast.Add) and isinstance(s.value, ast.Constant) and isinstance(s.value.value, int):
                     events[m.id] = ("inc", s.value.value)
-                elif d.kind == "assign" and isinstance(d.value, ast.Constant) and isinstance(d.value.value, int):
-                    events[m.id] = ("set", d.value.value)
+                elif d.kind == "assign" and isinstance(strip_wrappers(d.value), ast.Constant) and isinstance(strip_wrappers(d.value).value, int):
+                    events[m.id] = ("set", strip_wrappers(d.value).value)
+                elif d.kind == "assign" and _name_plus_const(d.value)[0] == epi:
+                    events[m.id] = ("inc", _name_plus_const(d.value)[1])
                 else:
                     raise AnalysisError(f"{site}: unrecognised definition of episode counter `{epi}`: {short(s)}")
-        ctrl = [(b, lab) for b, lab in cfg.control_deps(n.id) if (b, lab) in done_nodes]
-        the_done, done_lab = ctrl[0] if ctrl else min(done_nodes)
-
         # one finished episode per step whose episode ended: counted at the first episode-end branch taken after the step; branches
         # over the same (or derived) conditions stay correlated along a path (`episode_over` tested twice)
         from ..cfg import _idents
-        tv_, uv_ = L.pos.get(2), L.pos.get(3)
-        tracked = {tv_, uv_}
+        tracked = {tv, uv}
         for _ in range(4):
             for m in cfg.nodes:
-                if m.kind == "stmt" and isinstance(m.ast, ast.Assign) and len(m.ast.targets) == 1 and isinstance(m.ast.targets[0], ast.Name) and isinstance(m.ast.value, (ast.BoolOp, ast.UnaryOp, ast.Name)):
-                    if {x.id for x in ast.walk(m.ast.value) if isinstance(x, ast.Name)} <= tracked:
+                if m.kind == "stmt" and isinstance(m.ast, ast.Assign) and len(m.ast.targets) == 1 and isinstance(m.ast.targets[0], ast.Name):
+                    vn = _value_names(m.ast.value)
+                    if vn and vn <= tracked:                     # any function of the two results: bool(a or b), np.logical_or(a, b), a | b
                         tracked.add(m.ast.targets[0].id)
         done_set = set(done_nodes)
 
@@ -398,22 +838,39 @@ def r2_episodes(ck, repo, L):
 
         # `set` happens before the loop with zero finished episodes, so d = -k there
         parent, problems = explore(cfg, (0, frozenset(), False), transfer, bound=lambda st_: -4 <= st_[0] <= 4)
-        vals = sorted({st[0] for (nid, st) in parent if nid == n.id})
-        ok2 = vals == [0] and not problems
+        at_test = {}
+        for key in parent:
+            if key[0] == n.id:
+                at_test.setdefault(key[1][0], key)
+        vals = sorted(at_test)
+        if not vals:
+            raise AnalysisError(f"{site}: the episode-limit test `{short(cmp)}` is not reached by the path exploration (unrecognised form)")
+        # at the test  epi = finished - d,  so the run ends iff  finished >= total_episodes + shift + d:  exactly the limit iff d == -shift
+        ok2 = vals == [-shift] and not problems
+        wit = None
+        if not ok2:
+            bad = problems[0][3] if problems else at_test[[v for v in vals if v != -shift][0]]
+            nodes_ = [k[0] for k in path_to(parent, bad)]
+            _executable_rows(L, repo, nodes_, f"whether `{epi}` counts the finished episodes")
+            wit = _compress(cfg, nodes_)
         ck.ob("R2-episodes", site, "counter-equals-finished-episodes", ok2, f"`{epi}` at `{short(cmp)}`",
-              "" if ok2 else f"finished episodes - {epi} at the test is {vals} (expected [0]): the routine stops after the wrong number of episodes", where)
+              "" if ok2 else f"finished episodes - {epi} at the test is {vals} (expected [{-shift}] for `{short(cmp)}`): the routine stops after the wrong number of episodes", where, wit)
         # the exit arm leaves the loop without another step
         p = cfg.paths_avoiding(n.id, L.step_node, set(), first_label=exit_lab)
         ck.ob("R2-episodes", site, "limit-exits-loop", p is None, f"{exit_lab} arm of `{short(n.ast.test)}`", "" if p is None else "env.step is still reachable after the episode limit was reached", where,
               cfg.describe_path(p) if p else None)
-        # the test is inside the episode-end branch
-        # semantic reading: after a step whose episode did not end the limit test is not reached before the next step, and after a step
-        # that ended the episode it is
-        tv_, uv_ = L.pos.get(2), L.pos.get(3)
-        not_done = cfg.paths_avoiding(L.step_node, n.id, {L.step_node}, assume={tv_: False, uv_: False})
-        some_done = any(cfg.paths_avoiding(L.step_node, n.id, {L.step_node}, assume={tv_: a, uv_: b}) is not None for a, b in ((True, False), (False, True)))
-        inside = some_done and (not_done is None or any(dl in cfg.control_deps(n.id) for dl in done_nodes))
-        ck.ob("R2-episodes", site, "tested-at-episode-end", inside, f"`{short(cmp)}` under the episode-end test", "" if inside else "episode limit is not tested when an episode ends", where)
+    # the limit is tested when an episode ends: after a step that ended the episode there is no way to the next step around the limit test(s)
+    limit_nodes = set(exits)
+    for n, cmp in tests[:1]:
+        where = loc(L.mi, n.ast)
+        p = None
+        for a, b in ((True, False), (False, True)):
+            p = cfg.paths_avoiding(L.step_node, L.step_node, limit_nodes, assume={tv: a, uv: b}, at_node=_row_at_node(L, repo, a, b))
+            if p is not None:
+                _trust_row_witness(L, repo, p, a, b, "whether the episode limit is tested after an episode ended")
+                break
+        ck.ob("R2-episodes", site, "tested-at-episode-end", p is None, f"`{short(cmp)}` between an episode end and the next env.step", "" if p is None else "episode limit is not tested when an episode ends", where,
+              cfg.describe_path(p) if p else None)
 
 
 # ---------------------------------------------------------------------------------------------------
@@ -456,21 +913,55 @@ def _done_fields(L, repo):
     return out
 
 
+def _row_at_node(L, repo, a, b):
+    """Facts that hold at a test in the row (terminated, truncated) = (a, b): record fields that hold the two results, flags computed from them."""
+    fields = _done_fields(L, repo)
+
+    def at_node(nid):
+        out = {t_: (a if pos_ == 2 else b) for t_, pos_ in fields.get(nid, {}).items()}
+        out.update(_row_facts(L, nid, a, b))
+        return out
+    return at_node
+
+
+def _trust_row_witness(L, repo, path, a, b, what: str):
+    """A witness path for a (terminated, truncated) row is evidence only if every test on it that depends on the two results was decided:
+    a test that reads them through something this analysis cannot follow (an object's field, a helper's result, a converted value) and
+    stayed open lets the search take both arms."""
+    from ..loops import Origins
+    cfg = L.cfg
+    org = Origins(L)
+    org.repo = repo
+    acc = _done_assume(L, repo, a, b)
+    a2 = frozenset(acc.items())          # the literals known along the path, maintained as the path search does
+    for x_, nxt in zip(path, list(path[1:]) + [None]):
+        nx = cfg.nodes[x_]
+        if nx.kind == "test" and hasattr(nx.ast, "test"):
+            here = dict(acc)
+            here.update(dict(a2))
+            here.update(_row_facts(L, x_, a, b))
+            if cfg.eval3(nx.ast.test, here, x_) is None:
+                if any(isinstance(y, ast.Attribute) and isinstance(y.value, ast.Name) and y.value.id not in param_names(L.fn) for y in ast.walk(nx.ast.test)):
+                    raise AnalysisError(f"{L.qual}: {what} depends on `{short(nx.ast.test, 50)}` (state kept in an object: unrecognised form)")
+                deps = org.deps(nx.ast.test, x_)
+                if any(d_[0] == "step" and d_[1] in (2, 3) for d_ in deps) or any(d_[0] == "unknown" for d_ in deps):
+                    # the open part may be another operand (`terminated and not info[...]`): the flags themselves decide nothing here
+                    raise AnalysisError(f"{L.qual}: {what} depends on `{short(nx.ast.test, 50)}`, which reads the terminated / truncated results in a form this rule does not evaluate (unrecognised form)")
+            labs = {lab for s_, lab in nx.succ if s_ == nxt}
+            if len(labs) == 1 and next(iter(labs)) in (True, False):
+                a2 = a2 | frozenset(cfg._lits(nx.ast.test, next(iter(labs)), x_))
+        if nxt is not None:
+            a2 = cfg.propagate(nxt, a2)
+
+
 def r3_done_reset(ck, repo, L):
     cfg, site, S = L.cfg, L.qual, L.step_node
     tv, uv = L.pos.get(2), L.pos.get(3)
     ck.need(tv and uv, f"{site}: terminated/truncated results are discarded (unrecognised idiom)")
     for a, b in ((True, False), (False, True), (True, True)):
-        fields = _done_fields(L, repo)
-        p = cfg.paths_avoiding(S, S, set(L.resets_in), assume={tv: a, uv: b}, at_node=lambda nid_, a=a, b=b: {t_: (a if pos_ == 2 else b) for t_, pos_ in fields.get(nid_, {}).items()})
+        p = cfg.paths_avoiding(S, S, set(L.resets_in), assume={tv: a, uv: b}, at_node=_row_at_node(L, repo, a, b))
         if p is not None:
-            # the witness is only as good as the tests on it: a test that reads a field of a local object (a tracker / record this
-            # analysis cannot follow) and stayed undecided makes the path unreliable
-            acc = _done_assume(L, repo, a, b)
-            for x_ in p:
-                nx = cfg.nodes[x_]
-                if nx.kind == "test" and hasattr(nx.ast, "test") and cfg.eval3(nx.ast.test, acc, x_) is None and any(isinstance(y, ast.Attribute) and isinstance(y.value, ast.Name) and y.value.id not in param_names(L.fn) for y in ast.walk(nx.ast.test)):
-                    raise AnalysisError(f"{site}: whether an ended episode is stepped again depends on `{short(nx.ast.test, 50)}` (state kept in an object: unrecognised form)")
+            _trust_row_witness(L, repo, p, a, b, "whether an ended episode is stepped again")
         row = f"terminated={a},truncated={b}"
         ck.ob("R3-done-reset", site, row, p is None, f"{row}: step -> step without reset",
               "" if p is None else f"with {row} the loop steps the ended episode again without env.reset()", loc(L.mi, L.step_stmt),
@@ -489,7 +980,7 @@ def learners(repo, res: Resolver):
                 r = repo.resolve_expr(mi, n.func) if isinstance(n.func, (ast.Name, ast.Attribute)) else None
                 if r in ("flax.nnx.value_and_grad", "flax.nnx.grad", "jax.grad", "jax.value_and_grad"):
                     has_grad = True
-                if isinstance(n.func, ast.Attribute) and n.func.attr == "update" and len(n.args) == 2:
+                if isinstance(n.func, ast.Attribute) and n.func.attr == "update" and len(n.args) + len([k for k in n.keywords if k.arg is not None]) == 2:       # optimizer.update(model, grads), by position or keyword
                     has_upd = True
         if has_grad and has_upd:
             seeds.add(qual)
@@ -501,22 +992,77 @@ def learners(repo, res: Resolver):
     return seeds, out
 
 
+def _warm_reader(repo, L, cvar: str, W: str):
+    """Reader of comparisons between the step counter and the warm-up threshold W (semantic: aliases, int(...), either orientation,
+    `c - W >= 0`, `c + 1 > W`).  Returns (value, wnames): value(cmp, at) is the truth value of the comparison during warm-up
+    (counter < W), "open" when it was read and both values occur during warm-up (`c + 5 >= W`), "free" when the comparison does not
+    involve the threshold, None when it involves the threshold in a form this rule does not read."""
+    cfg = L.cfg
+    nfq = NF(repo, inline_calls=False)
+    sc = Scope(cfg, L.mi, {}, L.qual)
+    state = _loop_state(cfg, L.outer_header)
+    sc.opaque_names = set(state)
+    wnames = _derived(cfg, {W}, repo, L.mi)
+
+    def value(x, at):
+        if not {y.id for y in ast.walk(x) if isinstance(y, ast.Name)} & wnames:
+            return "free"
+        if not (isinstance(x, ast.Compare) and len(x.ops) == 1) or not _fresh(cfg, L.outer_header, x, at, state):
+            return None
+        opn = type(x.ops[0]).__name__
+        if opn in ("Lt", "LtE", "Gt", "GtE"):
+            D = _gap(nfq, sc, x, True, at)            # x  <=>  D > 0
+            if _unread(D):
+                return None
+            k = _offset(D, cvar, W)                     # D = c - W + k <= k - 1 during warm-up
+            if k is not None:
+                return False if k <= 1 else "open"
+            k = _offset(D, W, cvar)                     # D = W - c + k >= k + 1 during warm-up
+            if k is not None:
+                return True if k >= 0 else "open"
+            return None
+        if opn in ("Eq", "NotEq"):
+            E = nfq.poly(x.left, sc, at) - nfq.poly(x.comparators[0], sc, at)
+            if _unread(E):
+                return None
+            for k in (_offset(E, cvar, W), None if _offset(Poly({}) - E, cvar, W) is None else -_offset(Poly({}) - E, cvar, W)):
+                if k is not None:                       # x (Eq)  <=>  c == W - k
+                    eq = "open" if k >= 1 else False
+                    return eq if opn == "Eq" else ("open" if eq == "open" else True)
+            return None
+        return None
+    return value, wnames
+
+
 def r4_warmup(ck, repo, L, res, learn_set):
     cfg, site, fn = L.cfg, L.qual, L.fn
-    if "learning_starts" not in param_names(fn):
+    W = _role_param(fn, site, "learning_starts")
+    if W is None:
         ck.note(f"{site}: no documented warm-up parameter - no R4 obligation")
         return
-    # counter variable: loop guard / for target
-    hdr = cfg.nodes[L.outer_header].ast
-    cvar = None
-    if isinstance(hdr, ast.While) and isinstance(hdr.test, ast.Compare):
-        names = [x.id for x in (hdr.test.left, hdr.test.comparators[0]) if isinstance(x, ast.Name) and x.id not in BUDGET_PARAMS]
-        cvar = names[0] if len(names) == 1 else None
-    elif isinstance(hdr, ast.For) and isinstance(hdr.target, ast.Name):
-        cvar = hdr.target.id
+    # the step counter: the variable the budget guard compares with the budget / the target of the range over the budget
+    cvar = _budget_reading(repo, L)[2]
     ck.need(cvar is not None, f"{site}: cannot identify the step counter of the main loop")
-    calls = []
+    value, wnames = _warm_reader(repo, L, cvar, W)
     body = cfg.loop_body_nodes(L.outer_header)
+    # truth values of the comparisons with the threshold while counter < learning_starts
+    warm, unread, read_open = {}, set(), set()
+    for m_ in cfg.nodes:
+        if m_.id not in body or m_.ast is None:
+            continue
+        e_ = m_.ast.test if m_.kind == "test" and hasattr(m_.ast, "test") else m_.ast.iter if m_.kind == "for" else m_.ast if m_.kind == "stmt" else None
+        if e_ is None:
+            continue
+        for x in ast.walk(e_):
+            if isinstance(x, ast.Compare):
+                v_ = value(x, m_.id)
+                if v_ in (True, False):
+                    warm[ast.unparse(x)] = v_
+                elif v_ == "open":
+                    read_open.add(ast.unparse(x))
+                elif v_ is None:
+                    unread.add(ast.unparse(x))
+    calls = []
     for nid in sorted(body):
         n = cfg.nodes[nid]
         if n.ast is None or n.kind not in ("stmt",):
@@ -531,77 +1077,67 @@ def r4_warmup(ck, repo, L, res, learn_set):
             if q and (q in learn_set):
                 calls.append((nid, c, q))
     ck.need(calls, f"{site}: no learning call found in the loop (unrecognised idiom)")
+
+    def excluded(lits):
+        """One of the literals cannot hold during warm-up."""
+        return any(txt in warm and warm[txt] != truth for txt, truth in lits)
+
     for nid, c, q in calls:
         ok = False
         for b, lab in cfg.control_deps(nid):
             bn = cfg.nodes[b]
-            if bn.kind != "test" or not isinstance(bn.ast, ast.If):
-                continue
-            for txt, truth in cfg._lits(bn.ast.test, lab, b):
-                if _is_warm(txt, truth, cvar):
-                    ok = True
+            if bn.kind == "test" and isinstance(bn.ast, ast.If) and excluded(cfg._lits(bn.ast.test, lab, b)):
+                ok = True
+        p_ = None
         if not ok:
             # path reading: during warm-up (counter < learning_starts) the call must not be reachable from the loop header
-            warm_cmps = {}
-            for m_ in cfg.nodes:
-                if m_.id not in body or m_.ast is None:
-                    continue
-                for x in ast.walk(m_.ast.test if m_.kind == "test" and hasattr(m_.ast, "test") else m_.ast):
-                    if isinstance(x, ast.Compare) and len(x.ops) == 1:
-                        l_, r_ = x.left, x.comparators[0]
-                        names_ = {getattr(l_, "id", None), getattr(r_, "id", None)}
-                        if names_ == {cvar, "learning_starts"}:
-                            opn_ = type(x.ops[0]).__name__
-                            if isinstance(l_, ast.Name) and l_.id == "learning_starts":
-                                opn_ = {"Lt": "Gt", "LtE": "GtE", "Gt": "Lt", "GtE": "LtE"}.get(opn_, opn_)
-                            # truth value of `counter <op> learning_starts` while counter < learning_starts
-                            val_ = {"Lt": True, "LtE": True, "Gt": False, "GtE": False, "Eq": False, "NotEq": True}.get(opn_)
-                            if val_ is not None:
-                                warm_cmps[ast.unparse(x)] = val_
-            p_ = None
-            if warm_cmps:
-                p_ = cfg.paths_avoiding(L.outer_header, nid, {L.outer_header}, assume=warm_cmps, first_label=True)
-                if p_ is None:
-                    ok = True
+            p_ = cfg.paths_avoiding(L.outer_header, nid, {L.outer_header}, assume=warm, first_label=True)
+            if p_ is None:
+                ok = True
         wit = None
         if not ok:
-            tg = _trip_gate(cfg, nid, cvar, L.outer_header)
+            tg = _trip_gate(cfg, nid, L.outer_header, excluded, wnames)
             if tg is True:
                 ok = True
             elif tg is None:
                 raise AnalysisError(f"{site}: the number of updates per step `{short(c, 40)}` runs under is computed in a way this rule does not read (cannot decide the warm-up gate)")
-            elif p_ is not None:
-                # a witness path during warm-up: trustworthy when every test on it that involves the counter / learning_starts was decided
-                undecided = []
-                acc = dict(warm_cmps)
-                for a_, b_ in zip(p_, p_[1:]):
+            else:
+                # a witness path during warm-up is evidence when no test on it involves the threshold in a form that was not read (a test
+                # that stays open because of its other operands - `c >= W or len(buffer) > n` - is a way around the gate)
+                for a_ in p_[:-1]:
                     na = cfg.nodes[a_]
-                    if na.kind == "test" and hasattr(na.ast, "test"):
-                        names_ = {x.id for x in ast.walk(na.ast.test) if isinstance(x, ast.Name)}
-                        if names_ & {cvar, "learning_starts"} and cfg.eval3(na.ast.test, acc, a_) is None and not (names_ & {cvar}) <= names_ - {"learning_starts"} - {cvar} | {cvar} and "learning_starts" in names_:
-                            undecided.append(short(na.ast.test, 40))
-                if undecided:
-                    raise AnalysisError(f"{site}: whether `{short(c, 40)}` runs during warm-up depends on {undecided[:2]} (cannot decide the warm-up gate)")
+                    e_ = na.ast.test if na.kind == "test" and hasattr(na.ast, "test") else na.ast.iter if na.kind == "for" else None
+                    if e_ is None or (na.kind == "test" and cfg.eval3(e_, dict(warm), a_) is not None):
+                        continue
+                    read = {id(y) for x in ast.walk(e_) if isinstance(x, ast.Compare) and (ast.unparse(x) in warm or ast.unparse(x) in read_open) for y in ast.walk(x)}
+                    loose = [y.id for y in ast.walk(e_) if isinstance(y, ast.Name) and y.id in wnames and id(y) not in read]
+                    if loose:
+                        raise AnalysisError(f"{site}: whether `{short(c, 40)}` runs during warm-up depends on `{short(e_, 50)}` (cannot decide the warm-up gate)")
                 wit = cfg.describe_path(p_)
         ck.ob("R4-warmup", site, f"gate:{q.rsplit('.', 1)[1]}", ok, f"`{short(c, 60)}`",
-              "" if ok else f"learning call is not guarded by `{cvar} >= learning_starts` although `learning_starts` is documented as the warm-up: updates start too early",
+              "" if ok else f"learning call is reachable while `{cvar} < {W}` although `{W}` is documented as the warm-up: updates start too early",
               loc(L.mi, c), wit)
 
 
-def _trip_gate(cfg, nid, cvar, outer):
+def _trip_gate(cfg, nid, outer, excluded, wnames):
     """Warm-up through the number of updates: the call sits in `for _ in range(N)` and N is 0 unless counter >= learning_starts.
-    True: gated; False: the inner loops have trip counts that do not depend on the warm-up; None: cannot tell."""
+    True: gated; False: the trip counts of the inner loops do not involve the warm-up threshold; None: they do, in a form that is not read."""
     verdict = False
     for h in cfg.enclosing_loops(nid):
         if h == outer:
             break
         hn = cfg.nodes[h]
         if hn.kind != "for":
+            if hn.kind == "test" and {x.id for x in ast.walk(hn.ast.test) if isinstance(x, ast.Name)} & wnames:
+                verdict = None
             continue
         it = hn.ast.iter
-        if not (isinstance(it, ast.Call) and dotted(it.func) in ("range", "trange") and len(it.args) == 1 and isinstance(it.args[0], ast.Name)):
+        a_, b_ = _range_args(it)
+        if not (a_ is None and isinstance(b_, ast.Name)):
+            if {x.id for x in ast.walk(it) if isinstance(x, ast.Name)} & wnames:
+                verdict = None
             continue
-        defs = cfg.defs_of(h, it.args[0].id)
+        defs = cfg.defs_of(h, b_.id)
         if not defs or any(d.kind == "param" for d in defs):
             continue
         all_ok = True
@@ -613,82 +1149,213 @@ def _trip_gate(cfg, nid, cvar, outer):
                 zero_else = isinstance(v.orelse, ast.Constant) and v.orelse.value == 0
                 zero_body = isinstance(v.body, ast.Constant) and v.body.value == 0
                 lits_t = cfg._lits(v.test, True, d.node) if zero_else else cfg._lits(v.test, False, d.node) if zero_body else []
-                if any(_is_warm(t_, tr_, cvar) for t_, tr_ in lits_t):
+                if excluded(lits_t):
                     continue
             # a non-zero definition under a warm-up branch
             lits = [(t_, tr_) for b, lab in cfg.control_deps(d.node) if cfg.nodes[b].kind == "test" and isinstance(cfg.nodes[b].ast, ast.If) for t_, tr_ in cfg._lits(cfg.nodes[b].ast.test, lab, b)]
-            if any(_is_warm(t_, tr_, cvar) for t_, tr_ in lits):
+            if excluded(lits):
                 continue
             all_ok = False
             if v is not None and not isinstance(v, (ast.Name, ast.Constant, ast.Attribute)):
+                verdict = None
+            if isinstance(v, ast.AST) and {x.id for x in ast.walk(v) if isinstance(x, ast.Name)} & wnames:
                 verdict = None
         if all_ok:
             return True
     return verdict
 
 
-def _is_warm(txt, truth, cvar):
-    try:
-        e = ast.parse(txt, mode="eval").body
-    except SyntaxError:
-        return False
-    if not (isinstance(e, ast.Compare) and len(e.ops) == 1):
-        return False
-    l, r, op = e.left, e.comparators[0], type(e.ops[0]).__name__
-    if isinstance(l, ast.Name) and l.id == "learning_starts" and isinstance(r, ast.Name) and r.id == cvar:
-        l, r = r, l
-        op = {"Lt": "Gt", "LtE": "GtE", "Gt": "Lt", "GtE": "LtE"}.get(op, op)
-    if not (isinstance(l, ast.Name) and l.id == cvar and isinstance(r, ast.Name) and r.id == "learning_starts"):
-        return False
-    if not truth:
-        op = {"Lt": "GtE", "LtE": "Gt", "Gt": "LtE", "GtE": "Lt"}.get(op, op)
-    return op in ("GtE", "Gt")
-
-
 # ---------------------------------------------------------------------------------------------------
+FLAG = "self.waiting_for_reward"
+
+
+def _flag_value(e, flag_val):
+    """Truth value of a test over the protocol flag when the flag is ``flag_val`` (None: the test is not a function of the flag alone)."""
+    if isinstance(e, ast.Constant) and isinstance(e.value, bool):
+        return e.value
+    if dotted(e) == FLAG:
+        return flag_val
+    if isinstance(e, ast.Call) and dotted(e.func) == "bool" and len(e.args) == 1 and not e.keywords:
+        return _flag_value(e.args[0], flag_val)
+    if isinstance(e, ast.UnaryOp) and isinstance(e.op, ast.Not):
+        v = _flag_value(e.operand, flag_val)
+        return None if v is None else not v
+    if isinstance(e, ast.BoolOp):
+        vals = [_flag_value(x, flag_val) for x in e.values]
+        if isinstance(e.op, ast.Or):
+            return True if any(v is True for v in vals) else False if all(v is False for v in vals) else None
+        return False if any(v is False for v in vals) else True if all(v is True for v in vals) else None
+    if isinstance(e, ast.Compare) and len(e.ops) == 1 and isinstance(e.ops[0], (ast.Is, ast.IsNot, ast.Eq, ast.NotEq)):
+        l, r = _flag_value(e.left, flag_val), _flag_value(e.comparators[0], flag_val)
+        if l is not None and r is not None and (isinstance(e.left, ast.Constant) or isinstance(e.comparators[0], ast.Constant)):
+            return (l == r) if isinstance(e.ops[0], (ast.Is, ast.Eq)) else (l != r)
+    return None
+
+
+def _mentions_flag(e) -> bool:
+    return any(isinstance(x, ast.Attribute) and x.attr == FLAG.split(".")[1] for x in ast.walk(e))
+
+
+def _protocol_flag(ck, repo, base: str, meth: str, before: bool, after: bool):
+    """The base method refuses to run unless the flag is ``before`` (assert / `if ...: raise`, any spelling of the test) and leaves it ``after``
+    on every path.  Decided by path search: with the flag at the wrong value no path reaches a write of the flag or the exit; every path
+    to the exit passes a write of ``after`` and no later write of anything else."""
+    m = repo.method(base, meth)
+    ck.need(m is not None, f"{base}.{meth} not found")
+    fn = m[1]
+    mi = fn._module
+    cfg = CFG(fn)
+    site = f"{base}.{meth}"
+
+    def self_call_touching_flag(n):
+        for c in ast.walk(n.ast) if n.ast is not None and n.kind == "stmt" else []:
+            if isinstance(c, ast.Call) and isinstance(c.func, ast.Attribute) and isinstance(c.func.value, ast.Name) and c.func.value.id == "self":
+                r = repo.method(base, c.func.attr)
+                if r is None or _mentions_flag(r[1]):
+                    return True
+        return False
+    writes, blockers, unread = {}, set(), []
+    for n in cfg.nodes:
+        if n.ast is None:
+            continue
+        if n.kind == "stmt" and isinstance(n.ast, (ast.Assign, ast.AnnAssign, ast.AugAssign)):
+            tgts = n.ast.targets if isinstance(n.ast, ast.Assign) else [n.ast.target]
+            if any(dotted(t) == FLAG for t in tgts):
+                writes[n.id] = n.ast.value if not isinstance(n.ast, ast.AugAssign) else None
+            elif any(_mentions_flag(t) for t in tgts):
+                unread.append(short(n.ast, 50))
+        elif n.kind == "stmt" and isinstance(n.ast, ast.Assert):
+            v = _flag_value(n.ast.test, not before)
+            if v is False:
+                blockers.add(n.id)                       # the assertion fails when the flag has the wrong value
+            elif v is None and _mentions_flag(n.ast.test):
+                unread.append(short(n.ast.test, 50))
+        elif n.kind == "stmt" and self_call_touching_flag(n):
+            unread.append(short(n.ast, 50))
+        elif n.kind == "test" and hasattr(n.ast, "test") and _mentions_flag(n.ast.test) and _flag_value(n.ast.test, True) is None:
+            unread.append(short(n.ast.test, 50))
+    if unread:
+        raise AnalysisError(f"{site}: the protocol flag is handled through {unread[:2]} (unrecognised form)")
+    txt = FLAG
+
+    def facts(v):
+        # truth of every test over the flag when the flag is v (`if self.waiting_for_reward: raise ...`)
+        out = {}
+        for n in cfg.nodes:
+            if n.kind == "test" and hasattr(n.ast, "test"):
+                for x in ast.walk(n.ast.test):
+                    if isinstance(x, ast.expr) and _mentions_flag(x):
+                        fv = _flag_value(x, v)
+                        if fv is not None:
+                            out[ast.unparse(x)] = fv
+        out[txt] = v
+        return out
+    # (1) refused with the wrong flag value: no way from the entry to a write of the flag or to the exit that is not stopped
+    p = None
+    for dst in sorted(writes) + [cfg.exit]:
+        p = p or cfg.paths_avoiding(cfg.entry, dst, blockers | set(writes), assume=facts(not before))
+    ok1 = p is None
+    # (2) leaves the flag at `after`: values written (`not flag` after the check is `not before`)
+    val = {}
+    for nid, v in writes.items():
+        fv = _flag_value(v, before) if v is not None else None
+        if fv is None:
+            raise AnalysisError(f"{site}: the protocol flag is set to `{short(v, 40) if v is not None else '?'}` (unrecognised form)")
+        val[nid] = fv
+    good = {nid for nid, v in val.items() if v is after}
+    q = cfg.paths_avoiding(cfg.entry, cfg.exit, good, assume=facts(before))
+    if q is None:
+        for nid in sorted(set(val) - good):
+            q = q or (cfg.paths_avoiding(nid, cfg.exit, good) and [nid])
+    ok2 = q is None
+    want = f"refuses unless {FLAG} is {before}; leaves it {after}"
+    ck.ob("R5-scheduler", site, "protocol-flag", ok1 and ok2, want,
+          "" if ok1 and ok2 else ("the select/feedback alternation is not enforced: the method runs although the flag says the other call is due" if not ok1 else f"the select/feedback alternation flag is not left at {after} on every path"),
+          loc(mi, fn), cfg.describe_path(p if not ok1 else q) if not (ok1 and ok2) else None)
+
+
+def _tasks_element(nfs, p: Poly):
+    """True: the value is an element of self.tasks; False: it is index arithmetic (mod / len / counters), not an element; None: cannot tell."""
+    a = p.single_atom()
+    m = nfs.meta.get(a or "", {})
+    if a is not None and m.get("fn") == "subscript" and m.get("args") and m["args"][0].canon() == "self.tasks":
+        return True
+    if _unread(p):
+        return None
+    import re
+    txt = p.canon()
+    attrs = set(re.findall(r"self\.([A-Za-z_][A-Za-z_0-9]*)", txt))
+    tokens = set(re.findall(r"[A-Za-z_][A-Za-z_0-9]*", txt))
+    arithmetic = a is None or a.startswith(("mod(", "floordiv(", "len("))
+    if arithmetic and "self.tasks[" not in txt and tokens <= {"mod", "floordiv", "len", "self"} | attrs:
+        return False          # a number computed from counters / lengths of the object's own state: an index, not the task stored under it
+    return None
+
+
 def r5_selectors(ck, repo):
     base = "rl_blox.blox.multitask.TaskSelector"
     subs = repo.subclasses(base)
     ck.floor("selector-subclasses", len(subs), 2)
+    seen = set()
     for cq in subs:
-        c = repo.cls(cq)
-        mi = c._module
+        mro = repo.mro(cq)
         for meth in ("select", "feedback"):
-            m = repo.method(cq, meth, inherited=False)
-            if m is None:
+            m = repo.method(cq, meth)                # through inheritance: a method that moved to a mixin / intermediate base is still the selector's
+            if m is None or m[0] == base or (m[0], meth) in seen:
                 continue
-            fn = m[1]
+            seen.add((m[0], meth))
+            owner, fn = m
+            mi = repo.cls(owner)._module
+            fn._module = mi
             cfg = CFG(fn)
+            site = f"{owner}.{meth}"
             sup = set()
             for n in cfg.nodes:
                 if n.ast is None or n.kind != "stmt":
                     continue
                 for x in ast.walk(n.ast):
-                    if isinstance(x, ast.Call) and isinstance(x.func, ast.Attribute) and x.func.attr == meth and isinstance(x.func.value, ast.Call) and dotted(x.func.value.func) == "super":
+                    if not (isinstance(x, ast.Call) and isinstance(x.func, ast.Attribute) and x.func.attr == meth):
+                        continue
+                    recv = x.func.value
+                    if isinstance(recv, ast.Call) and dotted(recv.func) == "super":
                         sup.add(n.id)
+                    elif isinstance(recv, (ast.Name, ast.Attribute)) and x.args and isinstance(x.args[0], ast.Name) and x.args[0].id == "self":
+                        r = repo.resolve_expr(mi, recv)          # explicit `Base.select(self)`
+                        if r in mro and r != owner:
+                            sup.add(n.id)
             p = cfg.paths_avoiding(cfg.entry, cfg.exit, sup)
-            ck.ob("R5-scheduler", f"{cq}.{meth}", "calls-base-protocol", p is None, f"super().{meth}() on every path",
+            if p is not None:
+                # a path that handles the protocol in another way (the flag itself, a method of the object that does) is not evidence
+                for x_ in p:
+                    nx = cfg.nodes[x_]
+                    if nx.ast is None or nx.kind not in ("stmt", "test"):
+                        continue
+                    e_ = nx.ast.test if nx.kind == "test" and hasattr(nx.ast, "test") else nx.ast
+                    if _mentions_flag(e_):
+                        raise AnalysisError(f"{site}: handles the protocol flag itself (`{short(e_, 50)}`: unrecognised form)")
+                    for c in ast.walk(e_):
+                        if isinstance(c, ast.Call) and isinstance(c.func, ast.Attribute) and isinstance(c.func.value, ast.Name) and c.func.value.id == "self":
+                            r = repo.method(cq, c.func.attr)
+                            if r is None or _mentions_flag(r[1]) or any(isinstance(y, ast.Call) and isinstance(y.func, ast.Attribute) and y.func.attr == meth for y in ast.walk(r[1])):
+                                raise AnalysisError(f"{site}: the base protocol may be reached through `{short(c, 50)}` (unrecognised form)")
+            ck.ob("R5-scheduler", site, "calls-base-protocol", p is None, f"super().{meth}() on every path",
                   "" if p is None else f"a path through {meth}() skips the base-class protocol flag (select/feedback alternation is no longer enforced)", loc(mi, fn),
                   cfg.describe_path(p) if p else None)
             if meth == "select":
+                nfs = NF(repo, inline_calls=False)
+                sc = Scope(cfg, mi, {}, site)
                 for n in cfg.nodes:
                     if isinstance(n.ast, ast.Return) and n.kind == "stmt":
                         v = n.ast.value
-                        ok = isinstance(v, ast.Subscript) and dotted(v.value) == "self.tasks"
-                        ck.ob("R5-scheduler", f"{cq}.{meth}", "returns-valid-task", ok, f"return {short(v) if v is not None else None}",
+                        got = nfs.poly(v, sc, n.id) if v is not None else None
+                        ok = _tasks_element(nfs, got) if got is not None else False
+                        if ok is None:
+                            raise AnalysisError(f"{site}: returns `{got.canon()[:80]}` (unrecognised form)")
+                        ck.ob("R5-scheduler", site, "returns-valid-task", ok, f"return {short(v) if v is not None else None}",
                               "" if ok else "select() does not return an element of self.tasks", loc(mi, n.ast))
     # base protocol itself
     for meth, flag_before, flag_after in (("select", False, True), ("feedback", True, False)):
-        m = repo.method(base, meth, inherited=False)
-        ck.need(m is not None, f"{base}.{meth} not found")
-        fn = m[1]
-        asserts = [n for n in ast.walk(fn) if isinstance(n, ast.Assert)]
-        sets = [n for n in ast.walk(fn) if isinstance(n, ast.Assign) and dotted(n.targets[0]) == "self.waiting_for_reward"]
-        want_assert = "not self.waiting_for_reward" if not flag_before else "self.waiting_for_reward"
-        ok = len(asserts) == 1 and ast.unparse(asserts[0].test) == want_assert and len(sets) == 1 and isinstance(sets[0].value, ast.Constant) and sets[0].value.value is flag_after \
-            and asserts[0].lineno < sets[0].lineno
-        ck.ob("R5-scheduler", f"{base}.{meth}", "protocol-flag", ok, f"assert {want_assert}; self.waiting_for_reward = {flag_after}",
-              "" if ok else "the select/feedback alternation flag is not asserted and flipped as documented", loc(fn._module, fn))
+        _protocol_flag(ck, repo, base, meth, flag_before, flag_after)
 
 
 def r5_ducb(ck, repo, nf: NF):
@@ -705,33 +1372,56 @@ def r5_ducb(ck, repo, nf: NF):
     stops = {r.id for r in rets} or {cfg.exit}
     items, kinds, unrecorded = [], {}, 0
     want_init = "mod(len(self.rewards), self.n_arms)"
+    helper_names = {"_discounted_empirical_mean", "_padding_function"}
+    want_ucb_tokens = helper_names | {"argmax", "self", "n_arms", "range", "iter", "array", "asarray", "list", "float"}
+    # other ways of writing to the history than `self.chosen_arms.append(arm)` (rebinding, insert, a method of the object): not read here
+    other_recording = [short(n.ast, 50) for n in cfg.nodes if n.kind == "stmt" and n.ast is not None and (
+        (isinstance(n.ast, (ast.Assign, ast.AugAssign, ast.AnnAssign)) and any(dotted(t) == "self.chosen_arms" or (isinstance(t, ast.Subscript) and dotted(t.value) == "self.chosen_arms") for t in (n.ast.targets if isinstance(n.ast, ast.Assign) else [n.ast.target])))
+        or any(isinstance(c, ast.Call) and isinstance(c.func, ast.Attribute) and ((dotted(c.func.value) == "self.chosen_arms" and c.func.attr != "append")
+               or (dotted(c.func.value) == "self" and (lambda r: r is None or "chosen_arms" in ast.unparse(r[1]))(repo.method("rl_blox.blox.mapb.DUCB", c.func.attr)) and c.func.attr not in helper_names)) for c in ast.walk(n.ast)))]
     for pth in enumerate_paths(cfg, cfg.entry, stops, max_paths=2000):
         # paths that skip a loop over the arms entirely (zero arms) are not behaviours of a bandit with n_arms >= 1
         if any(cfg.nodes[nid].kind == "for" and lab is False and not any(n2 == nid and l2 is True for n2, l2 in pth) for nid, lab in pth):
             continue
         pe = PathEval(nfp, cfg, mi, q, {}).run(pth[:-1])
-        rec = [v.canon() for _, k, v in pe.appended if k == "self.chosen_arms"]
+        rec_polys = [v for _, k, v in pe.appended if k == "self.chosen_arms"]
+        rec = [v.canon() for v in rec_polys]
         last = cfg.nodes[pth[-1][0]]
         rv = pe.ev(last.ast.value).canon() if last.kind == "stmt" and isinstance(last.ast, ast.Return) and last.ast.value is not None else None
+        if not rec and other_recording:
+            raise AnalysisError(f"{q}: the history of chosen arms is updated through `{other_recording[0]}` (unrecognised form)")
+        if len(rec) == 1 and rv is not None and rv != rec[0] and (_unread(rv, True) or _unread(rec[0], True)):
+            raise AnalysisError(f"{q}: returned arm `{rv[:60]}` / recorded arm `{rec[0][:60]}` could not be read (unrecognised form)")
         if len(rec) != 1 or (rv is not None and rv != rec[0]):
             unrecorded += 1
             continue
         a = rec[0]
+        ap = rec_polys[0]
+        if _unread(a, opaque_ok=True):
+            raise AnalysisError(f"{q}: chosen arm `{a[:90]}` could not be read (unrecognised form)")
+        am = nfp.meta.get(ap.single_atom() or "", {})
+        afn = am.get("fn", "").split(".")[-1]
         if a == want_init:
             kind = "init"
-        elif a.startswith("argmax(") and "_discounted_empirical_mean" in a and "_padding_function" in a:
+        elif afn == "argmax" and helper_names <= _free_tokens(a):
             kind = "ucb"
             kinds.setdefault("ucb", set()).add(a)
-        elif a.startswith("argmin(") or (a.startswith("argmax(") and ("_discounted_empirical_mean" not in a or "_padding_function" not in a)) or a.startswith("mod(") or "len(self.rewards)" in a:
-            kind = "other:" + a[:60]
+        elif afn in ("argmax", "argmin") and _free_tokens(a) <= want_ucb_tokens | {"argmin"}:
+            kind = "other:" + a[:60]          # built from the documented ingredients only, combined differently (argmin, a missing term)
+        elif _free_tokens(a) <= _tokens(want_init):
+            kind = "other:" + a[:60]          # another function of len(rewards) and n_arms
         else:
             raise AnalysisError(f"{q}: chosen arm `{a[:90]}` is neither the round-robin arm nor argmax(mean + padding) in a form this check reads")
         conds = [(cfg.nodes[nid].ast.test, nid, lab) for nid, lab in pth[:-1] if cfg.nodes[nid].kind == "test" and lab in (True, False) and isinstance(cfg.nodes[nid].ast, ast.If) and "verbose" not in ast.unparse(cfg.nodes[nid].ast.test)]
         items.append((conds, kind))
     ck.ob("R5-scheduler", q, "records-choice", unrecorded == 0, "the returned arm is appended to chosen_arms on every path", "" if unrecorded == 0 else "a path returns an arm without recording it (or records another one)", loc(mi, fn))
     bad = sorted({k for _, k in items if k.startswith("other:")})
-    ck.ob("R5-scheduler", q, "round-robin-arm", not any(b.startswith("other:mod(") or "len(self.rewards)" in b for b in bad), f"initial arm = {want_init}", "" if not bad else f"initial rounds do not play every arm in turn (expected {want_init}); got {bad[:1]}", loc(mi, fn))
-    okucb = "ucb" in kinds and not any(b.startswith("other:arg") for b in bad)
+    bad_rr = [b for b in bad if not b.startswith(("other:argmax(", "other:argmin("))]
+    ck.ob("R5-scheduler", q, "round-robin-arm", not bad_rr, f"initial arm = {want_init}", "" if not bad_rr else f"initial rounds do not play every arm in turn (expected {want_init}); got {bad_rr[:1]}", loc(mi, fn))
+    bad_arg = [b for b in bad if b.startswith(("other:argmax(", "other:argmin("))]
+    if "ucb" not in kinds and not bad_arg:
+        raise AnalysisError(f"{q}: no path records an arg-max over the arms (unrecognised form)")
+    okucb = "ucb" in kinds and not bad_arg
     if okucb:
         # the sum must be mean + padding (not a difference): the argmax argument has two positive terms
         u = sorted(kinds["ucb"])[0]
@@ -739,8 +1429,12 @@ def r5_ducb(ck, repo, nf: NF):
         def _coef(name):
             cs = [c for m_, c in inner.terms.items() if any(name in a_ for a_, _ in m_)]
             return cs
-        okucb = inner is not None and _coef("_discounted_empirical_mean") == [1] and _coef("_padding_function") == [1] \
+        if inner is None or _unread(inner, opaque_ok=True):
+            raise AnalysisError(f"{q}: the argument of the arg-max `{u[:90]}` could not be read (unrecognised form)")
+        okucb = _coef("_discounted_empirical_mean") == [1] and _coef("_padding_function") == [1] \
             and all(any(n_ in a_ for a_, _ in m_ for n_ in ("_discounted_empirical_mean", "_padding_function")) or all(a_ == "()" for a_, _ in m_) for m_ in inner.terms)
+        if not okucb and not _free_tokens(inner.canon()) <= want_ucb_tokens:
+            raise AnalysisError(f"{q}: the argument of the arg-max `{inner.canon()[:90]}` is not built from the discounted mean and the padding alone (unrecognised form)")
     ck.ob("R5-scheduler", q, "ucb-argmax", okucb, f"arm = {sorted(kinds.get('ucb', ['?']))[0][:100]}", "" if okucb else "after the initial rounds the arm is not argmax(discounted mean + padding)", loc(mi, fn))
     items2 = [(c, k if not k.startswith("other:") else "ucb") for c, k in items]
     pred = parse_expr("len(self.rewards) < 2 * self.n_arms")
@@ -748,32 +1442,95 @@ def r5_ducb(ck, repo, nf: NF):
     ck.need(first_test is not None, f"{q}: no branch between initial rounds and index policy (unrecognised idiom)")
     verdict, info = selector_table(nfp, mi, cfg, items2, pred, "init", "ucb", pred_at=first_test)
     if verdict is None:
-        # a threshold test on the same quantity with another (polynomially different) threshold is a definite deviation
-        thr = set()
-        for conds_, _ in items2:
-            for t_, nid_, _ in conds_:
-                if isinstance(t_, ast.Compare) and len(t_.ops) == 1:
-                    sc_ = Scope(cfg, mi, {}, q)
-                    l_, r_ = nfp.poly(t_.left, sc_, nid_).canon(), nfp.poly(t_.comparators[0], sc_, nid_).canon()
-                    if l_ == "len(self.rewards)":
-                        thr.add(r_)
-                    elif r_ == "len(self.rewards)":
-                        thr.add(l_)
-        if thr and "2*self.n_arms" not in thr and all("self.n_arms" in t_ or t_.lstrip("-").isdigit() for t_ in thr):
-            verdict, info = False, f"threshold {sorted(thr)} instead of 2*self.n_arms"
-        else:
-            raise AnalysisError(f"{q}: initial-rounds test not comparable with len(rewards) < 2*n_arms: {info}")
+        # a threshold test on the same quantity with another (polynomially different) threshold is a definite deviation.  Every order
+        # comparison with len(rewards) is brought to the integer boundary T of  `len(rewards) < T`  (so `<= T - 1`, `T > len`, `not len >= T`
+        # are the same test)
+        thr = []
+        want_T = nfp.poly(parse_expr("2 * self.n_arms"), Scope(cfg, mi, {}, q), first_test)
+        items3, rewritten = [], False
+        for conds_, k_ in items2:
+            conds3 = []
+            for t_, nid_, taken_ in conds_:
+                sc_ = Scope(cfg, mi, {}, q)
+                D_ = _gap(nfp, sc_, t_, True, nid_)
+                repl = (t_, nid_, taken_)
+                if D_ is not None and not _unread(D_):
+                    n_ = nfp.poly(parse_expr("len(self.rewards)"), sc_, nid_)
+                    for T_, same_sense in ((D_ + n_, True), (n_ - D_ + Poly.const(1), False)):            # D = T - len   /   D = len - T + 1
+                        if n_.single_atom() not in T_.atoms() and T_.atoms() <= {"self.n_arms"}:
+                            if T_ not in thr:
+                                thr.append(T_)
+                            if (T_ - want_T).is_zero():
+                                repl, rewritten = (pred, nid_, taken_ if same_sense else not taken_), True    # the documented test, spelled differently
+                conds3.append(repl)
+            items3.append((conds3, k_))
+        if rewritten:
+            verdict, info = selector_table(nfp, mi, cfg, items3, pred, "init", "ucb", pred_at=first_test)
+        if verdict is None:
+            if thr and not any((T_ - want_T).is_zero() for T_ in thr):
+                verdict, info = False, f"threshold {sorted(T_.canon() for T_ in thr)} instead of 2*self.n_arms"
+            else:
+                raise AnalysisError(f"{q}: initial-rounds test not comparable with len(rewards) < 2*n_arms: {info}")
     ck.ob("R5-scheduler", q, "initial-rounds-guard", verdict, "round-robin iff len(self.rewards) < 2*self.n_arms (truth table over the branch conditions)", "" if verdict else f"every arm must be played twice before the index policy takes over: round-robin exactly while len(rewards) < 2*n_arms; differs in the world {info}", loc(mi, fn))
     # reward(): append then refresh frequencies
-    rq = "rl_blox.blox.mapb.DUCB.reward"
+    C = "rl_blox.blox.mapb.DUCB"
+    rq = C + ".reward"
     rf = repo.func(rq)
     rcfg = nf.cfg_of(rf)
+    FREQ = "discounted_frequencies"
+
+    def writes_freq(fn_, depth=0):
+        """The method (or a method of the object it calls) stores into the discounted frequencies (directly or through a local alias)."""
+        alias = {t.id for x in ast.walk(fn_) if isinstance(x, ast.Assign) and dotted(x.value) == "self." + FREQ for t in x.targets if isinstance(t, ast.Name)}
+
+        def is_freq(b):
+            return dotted(b) == "self." + FREQ or (isinstance(b, ast.Name) and b.id in alias)
+        for x in ast.walk(fn_):
+            if isinstance(x, (ast.Assign, ast.AugAssign, ast.AnnAssign)):
+                for t in (x.targets if isinstance(x, ast.Assign) else [x.target]):
+                    b = t
+                    while isinstance(b, ast.Subscript):
+                        b = b.value
+                    if is_freq(b) and not (isinstance(t, ast.Name)):
+                        return True
+            if isinstance(x, ast.Call) and isinstance(x.func, ast.Attribute) and is_freq(x.func.value) and x.func.attr in ("fill", "put", "__setitem__", "itemset"):
+                return True
+            if isinstance(x, ast.Call) and isinstance(x.func, ast.Attribute) and dotted(x.func.value) == "self" and depth < 3:
+                r = repo.method(C, x.func.attr)
+                if r is not None and r[1] is not fn_ and writes_freq(r[1], depth + 1):
+                    return True
+        return False
+
+    def mentions_freq(fn_, depth=0):
+        if any(isinstance(x, ast.Attribute) and x.attr == FREQ for x in ast.walk(fn_)):
+            return True
+        return any(isinstance(x, ast.Call) and isinstance(x.func, ast.Attribute) and dotted(x.func.value) == "self" and depth < 3 and (lambda r: r is not None and r[1] is not fn_ and mentions_freq(r[1], depth + 1))(repo.method(C, x.func.attr))
+                   for x in ast.walk(fn_))
     apps = [n for n in rcfg.nodes if n.kind == "stmt" and isinstance(n.ast, ast.Expr) and isinstance(n.ast.value, ast.Call) and dotted(n.ast.value.func) == "self.rewards.append"]
-    refresh = [n for n in rcfg.nodes if n.kind == "stmt" and n.ast is not None and any(isinstance(c, ast.Call) and dotted(c.func) == "self._episode_finished" for c in ast.walk(n.ast))]
-    if not refresh:
+    other_rewards = [short(n.ast, 50) for n in rcfg.nodes if n.kind == "stmt" and n.ast is not None and n not in apps and any(dotted(x) == "self.rewards" for x in ast.walk(n.ast))]
+    if len(apps) != 1 and other_rewards:
+        raise AnalysisError(f"{rq}: the reward history is updated through `{other_rewards[0]}` (unrecognised form)")
+    refresh, unknown_calls = [], []
+    for n in rcfg.nodes:
+        if n.kind != "stmt" or n.ast is None:
+            continue
+        hit = False
+        for c in ast.walk(n.ast):
+            if isinstance(c, ast.Call) and isinstance(c.func, ast.Attribute) and dotted(c.func.value) == "self":
+                r = repo.method(C, c.func.attr)
+                if r is None:
+                    unknown_calls.append(short(c, 40))
+                elif writes_freq(r[1]):
+                    hit = True
+                elif mentions_freq(r[1]):
+                    unknown_calls.append(short(c, 40))        # handles the frequencies in a way this reader does not follow
         # the refresh may have been inlined: any write of the discounted frequencies counts
-        refresh = [n for n in rcfg.nodes if n.kind == "stmt" and n.ast is not None and "self.discounted_frequencies" in ast.unparse(n.ast) and isinstance(n.ast, (ast.Assign, ast.AugAssign))]
-    ok = len(apps) == 1 and bool(refresh) and all(rcfg.paths_avoiding(r.id, apps[0].id, set()) is None for r in refresh) and rcfg.paths_avoiding(rcfg.entry, rcfg.exit, {apps[0].id}) is None
+        if hit or writes_freq(ast.Module(body=[n.ast], type_ignores=[])):
+            refresh.append(n)
+    if not refresh and unknown_calls:
+        raise AnalysisError(f"{rq}: calls {unknown_calls[:2]}, which this rule cannot follow (unrecognised form)")
+    ok = len(apps) == 1 and bool(refresh) and all(rcfg.paths_avoiding(r.id, apps[0].id, set()) is None for r in refresh) and rcfg.paths_avoiding(rcfg.entry, rcfg.exit, {apps[0].id}) is None \
+        and all(rcfg.paths_avoiding(apps[0].id, rcfg.exit, {r.id for r in refresh}) is None for _ in (0,))
     ck.ob("R5-scheduler", rq, "reward-then-refresh", ok, f"{len(apps)} append(s), {len(refresh)} refresh statement(s)", "" if ok else "reward() must record the reward and then refresh the discounted frequencies", loc(rf._module, rf))
 
 
@@ -784,6 +1541,15 @@ def r5_ducb_mean(ck, repo, nf: NF):
     mq, eq, pq = C + "._discounted_empirical_mean", C + "._episode_finished", C + "._padding_function"
     mf, ef, pf = repo.func(mq), repo.func(eq), repo.func(pq)
     mi = mf._module
+    # the quantities a D-UCB object is made of: its attributes (as set anywhere in the class) - a value built from these alone, but not
+    # as documented, is a different value; anything else in it is something this rule did not read
+    own = {"self"} | {t.attr for fn_ in repo.cls(C).body if isinstance(fn_, ast.FunctionDef) for x in ast.walk(fn_) if isinstance(x, (ast.Assign, ast.AugAssign, ast.AnnAssign))
+                      for t in (x.targets if isinstance(x, ast.Assign) else [x.target]) for t in [t.value if isinstance(t, ast.Subscript) else t] if isinstance(t, ast.Attribute) and dotted(t.value) == "self"}
+
+    def evidence(got, want, what, extra=()):
+        """got != want is a violation only if got is built from the documented ingredients (and the object's own state)."""
+        if _unread(got) or not same_ingredients(got, want, tuple(own) + tuple(extra)):
+            raise AnalysisError(f"{what}: `{got.canon()[:100]}` (unrecognised form)")
     SV = Poly.atom("§s", {"§s"}, {"§s"})
     ecfg = nf.cfg_of(ef)
     _loops = [n for n in ecfg.nodes if n.kind == "for" and isinstance(n.ast.target, ast.Name)]
@@ -802,16 +1568,27 @@ def r5_ducb_mean(ck, repo, nf: NF):
     sc = Scope(cfg, mi, {var: SV}, mq)
     arm = positional_params_(mf)[0] if positional_params_(mf) else "arm_idx"
     num_range = nf.poly(gen.iter, sc, node.id).canon()
-    conds = [nf.poly(c, sc, node.id).canon() for c in gen.ifs]
-    want_cond = nf.poly(parse_expr(f"self.chosen_arms[{var}] == {arm}"), sc, node.id).canon()
+    cond_polys = [nf.poly(c, sc, node.id) for c in gen.ifs]
+    conds = [c.canon() for c in cond_polys]
+    want_cond_p = nf.poly(parse_expr(f"self.chosen_arms[{var}] == {arm}"), sc, node.id)
+    want_cond = want_cond_p.canon()
     ok = conds == [want_cond]
+    if not ok:
+        for c_ in cond_polys:             # no filter at all is evidence as it stands
+            evidence(c_, want_cond_p, f"{mq}: filter of the reward sum", ("NotEq", "Eq", arm, "§s", var))
     ck.ob("R5-scheduler", mq, "mean-filters-arm", ok, f"if {conds}", "" if ok else f"the numerator must sum exactly the rewards of the evaluated arm ({want_cond})", loc(mi, comp))
     elt = nf.poly(comp.elt, sc, node.id)
     rets = [n for n in cfg.nodes if n.kind == "stmt" and isinstance(n.ast, ast.Return)]
     ck.need(len(rets) == 1, f"{mq}: expected one return")
     got = nf.poly(rets[0].ast.value, Scope(cfg, mi, {}, mq), rets[0].id).canon()
     comp_atom = nf.poly(comp, Scope(cfg, mi, {}, mq), node.id).canon()
-    want = nf.poly(parse_expr(f"np.sum(__c) / self.discounted_frequencies[{arm}]"), Scope(None, mi, {"__c": nf.poly(comp, Scope(cfg, mi, {}, mq), node.id)}, mq), None).canon()
+    want_p = nf.poly(parse_expr(f"np.sum(__c) / self.discounted_frequencies[{arm}]"), Scope(None, mi, {"__c": nf.poly(comp, Scope(cfg, mi, {}, mq), node.id)}, mq), None)
+    want = want_p.canon()
+    if got != want:
+        got_p = nf.poly(rets[0].ast.value, Scope(cfg, mi, {}, mq), rets[0].id)
+        strip_ = lambda t: __import__("re").sub(r"⟦.*?⟧", "COMP", t)            # the comprehension is the same object on both sides
+        if "φ(" in got or not (_tokens(strip_(got)) <= _tokens(strip_(want)) | own | {arm}):
+            raise AnalysisError(f"{mq}: returns `{got[:100]}` (unrecognised form)")
     ck.ob("R5-scheduler", mq, "mean-normalised-by-frequency", got == want, got[:150], "" if got == want else f"the discounted mean must be the weighted reward sum divided by the arm's discounted frequency N(i): {want[:150]}", loc(mi, rets[0].ast))
     # ---- normaliser ---------------------------------------------------------------------------------------
     ecfg = nf.cfg_of(ef)
@@ -830,7 +1607,10 @@ def r5_ducb_mean(ck, repo, nf: NF):
         den_range = nf.poly(loops_[0].ast.iter, esc, loops_[0].id).canon()
         den_w = nf.poly(writes[1].ast.value, esc, writes[1].id)
         ix = nf.poly(writes[1].ast.target.slice, esc, writes[1].id).canon()
-        okix = ix == nf.poly(parse_expr(f"self.chosen_arms[{lv}]"), esc, writes[1].id).canon()
+        want_ix = nf.poly(parse_expr(f"self.chosen_arms[{lv}]"), esc, writes[1].id)
+        okix = ix == want_ix.canon()
+        if not okix:
+            evidence(nf.poly(writes[1].ast.target.slice, esc, writes[1].id), want_ix, f"{eq}: index of the frequency update", (lv, "iter", "range", "max", "len", "§s"))
         ck.ob("R5-scheduler", eq, "frequency-of-chosen-arm", okix, f"N[{ix}] += w", "" if okix else "each history entry must add its weight to the arm chosen at that entry", loc(mi, writes[1].ast))
     elif len(writes) == 2 and all(isinstance(w.ast, ast.AugAssign) for w in writes) and not loops_ \
             and isinstance(writes[0].ast.op, ast.Mult) and isinstance(writes[0].ast.target, ast.Attribute) and isinstance(writes[1].ast.op, ast.Add) and ecfg.dominates(writes[0].id, writes[1].id):
@@ -848,21 +1628,40 @@ def r5_ducb_mean(ck, repo, nf: NF):
         raise AnalysisError(f"{eq}: the maintenance of the discounted frequencies matches neither the windowed recomputation nor the recurrence idiom: sibling agreement with the discounted mean cannot be decided")
     rng_norm = lambda r: r.replace("range(0, ", "range(")
     okr = rng_norm(num_range) == rng_norm(den_range)
+    if not okr and (_unread(num_range) or _unread(den_range) or not (_tokens(num_range) | _tokens(den_range)) <= own | {"range", "max", "min", "len", "maximum", "minimum"}):
+        raise AnalysisError(f"{C}: history ranges `{num_range[:60]}` / `{den_range[:60]}` (unrecognised form)")
     ck.ob("R5-scheduler", C, "mean-window-agreement", okr, f"numerator over {num_range}; frequencies ({form}) over {den_range}",
           "" if okr else "the discounted reward sum and the discounted frequency it is divided by range over different parts of the history: the ratio is not a weighted mean (it leaves the reward range once the histories differ)", loc(mi, ef))
     rw = nf.poly(parse_expr(f"self.rewards[{var}]"), sc, node.id)
     okw = (elt - den_w * rw).is_zero()
+    if not okw:
+        evidence(elt, den_w * rw, f"{mq}: term of the reward sum", (var, "§s", "pow", "len", "iter", "range", "max"))
     ck.ob("R5-scheduler", C, "mean-weight-agreement", okw, f"numerator term {elt.canon()[:110]}; frequency weight {den_w.canon()[:80]}",
           "" if okw else "the numerator must weight reward s by the same discount that entry s contributes to the arm's discounted frequency", loc(mi, comp))
     # total frequency and padding
-    tot = [n for n in ecfg.nodes if n.kind == "stmt" and isinstance(n.ast, ast.Assign) and dotted(n.ast.targets[0]) == "self.total_frequency"]
-    ok = len(tot) == 1 and nf.poly(tot[0].ast.value, Scope(None, mi, {}, eq), None).canon() == f"sum({F})" and all(ecfg.paths_avoiding(tot[0].id, w.id, set()) is None for w in writes) and not ecfg.control_deps(tot[0].id)
-    ck.ob("R5-scheduler", eq, "total-frequency", ok, short(tot[0].ast, 80) if tot else "missing", "" if ok else "n_t must be the sum of the refreshed discounted frequencies", loc(mi, ef))
+    tot = [n for n in ecfg.nodes if n.kind == "stmt" and isinstance(n.ast, (ast.Assign, ast.AnnAssign)) and dotted(n.ast.targets[0] if isinstance(n.ast, ast.Assign) else n.ast.target) == "self.total_frequency"]
+    if len(tot) != 1:
+        raise AnalysisError(f"{eq}: {len(tot)} plain assignments of self.total_frequency (unrecognised form)")
+    tot_p = nf.poly(tot[0].ast.value, Scope(ecfg, mi, {}, eq), tot[0].id)
+    want_tot = nf.poly(parse_expr(f"np.sum({F})"), Scope(None, mi, {}, eq), None)
+    ok_val = tot_p.canon() == want_tot.canon()
+    if not ok_val:
+        evidence(tot_p, want_tot, f"{eq}: total frequency", ("len",))
+    # n_t is computed after the frequencies were refreshed, on every path on which they were
+    stale = next((pth for w in writes for pth in [ecfg.paths_avoiding(tot[0].id, w.id, set()) or ecfg.paths_avoiding(w.id, ecfg.exit, {tot[0].id})] if pth is not None), None)
+    if stale is not None and any(ecfg.nodes[x_].kind == "test" for x_ in stale[:-1]):
+        raise AnalysisError(f"{eq}: whether n_t is recomputed after the frequencies depends on `{short(next(ecfg.nodes[x_].ast.test for x_ in stale if ecfg.nodes[x_].kind == 'test'), 50)}` (unrecognised form)")
+    ok = ok_val and stale is None
+    ck.ob("R5-scheduler", eq, "total-frequency", ok, short(tot[0].ast, 80), "" if ok else "n_t must be the sum of the refreshed discounted frequencies", loc(mi, ef), ecfg.describe_path(stale) if stale else None)
     pcfg = nf.cfg_of(pf)
     prets = [n for n in pcfg.nodes if n.kind == "stmt" and isinstance(n.ast, ast.Return)]
     parm = positional_params_(pf)[0] if positional_params_(pf) else "arm_idx"
-    got = nf.poly(prets[0].ast.value, Scope(pcfg, mi, {}, pq), prets[0].id).canon()
-    want = nf.poly(parse_expr(f"2 * self.upper_bound * np.sqrt(self.zeta * np.log(self.total_frequency) / self.discounted_frequencies[{parm}])"), Scope(None, mi, {}, pq), None).canon()
+    ck.need(len(prets) == 1, f"{pq}: expected one return")
+    got_p = nf.poly(prets[0].ast.value, Scope(pcfg, mi, {}, pq), prets[0].id)
+    want_p = nf.poly(parse_expr(f"2 * self.upper_bound * np.sqrt(self.zeta * np.log(self.total_frequency) / self.discounted_frequencies[{parm}])"), Scope(None, mi, {}, pq), None)
+    got, want = got_p.canon(), want_p.canon()
+    if got != want:
+        evidence(got_p, want_p, f"{pq}: exploration bonus", (parm,))
     ck.ob("R5-scheduler", pq, "padding-formula", got == want, got, "" if got == want else f"exploration bonus must be 2B*sqrt(zeta*log(n_t)/N_t(i)) = {want}", loc(mi, pf))
 
 
@@ -883,31 +1682,56 @@ def r5_budget_symbolic(ck, repo, nf: NF, qual: str, budget: str):
     ck.need(len(hdrs) == 1, f"{site}: expected one top-level while loop")
     H = hdrs[0]
     t = H.ast.test
-    # the scheduler's step counter is the variable its main loop compares with the budget (its local name does not matter)
-    if isinstance(t, ast.Compare) and len(t.ops) == 1 and isinstance(t.left, ast.Name) and dotted(t.comparators[0]) == budget:
-        G = t.left.id
-    elif isinstance(t, ast.Compare) and len(t.ops) == 1 and isinstance(t.comparators[0], ast.Name) and dotted(t.left) == budget:
-        G = t.comparators[0].id
-        t = ast.Compare(left=t.comparators[0], ops=[{ast.Gt: ast.Lt, ast.GtE: ast.LtE, ast.Lt: ast.Gt, ast.LtE: ast.GtE}.get(type(t.ops[0]), type(t.ops[0]))()], comparators=[t.left])
-    else:
-        raise AnalysisError(f"{site}: the main loop guard `{short(t)}` does not compare a counter with `{budget}` (unrecognised form)")
-    ok = isinstance(t, ast.Compare) and isinstance(t.ops[0], ast.Lt) and dotted(t.left) == G and dotted(t.comparators[0]) == budget
-    ck.ob("R2-budget", site, "while-guard", ok, f"while {short(t)}", "" if ok else f"scheduler loop guard is not `{G} < {budget}` (strict)", loc(mi, H.ast))
+    # the scheduler's step counter is the variable its main loop compares with the budget (its local name does not matter; either orientation,
+    # `G + 1 <= budget`, an alias of the budget)
+    G, k = _scheduler_guard(repo, cfg, mi, site, H, budget)
+    ok = k == 0
+    ck.ob("R2-budget", site, "while-guard", ok, f"while {short(t)}", "" if ok else f"scheduler loop runs while {G} < {budget} + {k}: the guard is not `{G} < {budget}` (strict)", loc(mi, H.ast))
     # sub-call receives the same budget and the current counter
     for n in cfg.nodes:
         if n.ast is None or n.kind != "stmt":
             continue
         for c in ast.walk(n.ast):
             if isinstance(c, ast.Call) and isinstance(c.func, ast.Name) and c.func.id == "train_st":
-                kw = {k.arg: k.value for k in c.keywords}
+                kw = {k_.arg: k_.value for k_ in c.keywords}
                 ssc = Scope(cfg, mi, {}, qual)
                 ssc.opaque_names = {G, budget}
-                okb = nf.poly(kw["total_timesteps"], ssc, n.id).canon() == budget if kw.get("total_timesteps") is not None else False
-                okc = nf.poly(kw["global_step"], ssc, n.id).canon() == G if kw.get("global_step") is not None else False
-                ck.ob("R5-scheduler", site, "subcall-budget", okb, f"train_st(total_timesteps={short(kw['total_timesteps']) if 'total_timesteps' in kw else None})",
-                      "" if okb else f"the single-task routine is not given the scheduler's remaining budget `{budget}`", loc(mi, c))
-                ck.ob("R5-scheduler", site, "subcall-counter", okc, f"train_st(global_step={short(kw['global_step']) if 'global_step' in kw else None})",
-                      "" if okc else "the single-task routine does not start from the scheduler's global step counter", loc(mi, c))
+                for key, want_name, what, why in (("total_timesteps", budget, "subcall-budget", f"the single-task routine is not given the scheduler's remaining budget `{budget}`"),
+                                                  ("global_step", G, "subcall-counter", "the single-task routine does not start from the scheduler's global step counter")):
+                    if kw.get(key) is None:
+                        if c.args or None in kw:
+                            # positional arguments / **options: what the callee receives under this name is not visible here
+                            raise AnalysisError(f"{site}: `{short(c, 50)}` does not pass `{key}` by keyword (unrecognised form)")
+                        okv, shown = False, None                 # plain keyword call without it: the callee runs on its default
+                    else:
+                        got = nf.poly(kw[key], ssc, n.id)
+                        okv, shown = got.canon() == want_name, short(kw[key])
+                        if not okv and (_unread(got) or not got.atoms() <= {G, budget}):
+                            raise AnalysisError(f"{site}: train_st({key}={short(kw[key], 50)}) (unrecognised form)")
+                    ck.ob("R5-scheduler", site, what, okv, f"train_st({key}={shown})", "" if okv else why, loc(mi, c))
+
+
+def _scheduler_guard(repo, cfg, mi, site, H, budget):
+    """(counter, k): the scheduler loop runs while  counter < budget + k  (k == 0: the strict guard)."""
+    t = H.ast.test
+    nfq = NF(repo, inline_calls=False)
+    state = _loop_state(cfg, H.id)
+    sc = Scope(cfg, mi, {}, site)
+    sc.opaque_names = set(state) | {budget}
+    hits = []
+    for txt, truth in cfg._lits(t, True, H.id):
+        e = _parse(txt)
+        D = _gap(nfq, sc, e, truth, H.id) if e is not None else None
+        if D is None or _unread(D):
+            continue
+        for c in sorted(a for a in D.atoms() if a in state):
+            k = _offset(D, budget, c)
+            if k is not None:
+                hits.append((k, c))
+    if not hits:
+        raise AnalysisError(f"{site}: the main loop guard `{short(t)}` does not compare a counter with `{budget}` (unrecognised form)")
+    k, G = min(hits)
+    return G, k
 
 
 def r5_budget_exact(ck, repo, nf: NF, qual: str, budget: str):
@@ -929,13 +1753,13 @@ def r5_budget_exact(ck, repo, nf: NF, qual: str, budget: str):
     hdrs = [n for n in cfg.nodes if n.kind == "test" and isinstance(n.ast, ast.While) and not cfg.control_deps(n.id)]
     ck.need(len(hdrs) == 1, f"{site}: expected one top-level while loop")
     H = hdrs[0]
-    t_ = H.ast.test
-    if isinstance(t_, ast.Compare) and len(t_.ops) == 1 and isinstance(t_.left, ast.Name) and isinstance(t_.comparators[0], ast.Name) and budget in (t_.left.id, t_.comparators[0].id):
-        G = t_.left.id if t_.comparators[0].id == budget else t_.comparators[0].id      # the counter the loop compares with the budget
+    G, _k = _scheduler_guard(repo, cfg, mi, site, H, budget)      # the counter the loop compares with the budget
     # per-task totals: the subscripted container that is advanced by the recorded episode lengths (its local name does not matter)
     tcands = {dotted(m.ast.target.value) for m in cfg.nodes if m.kind == "stmt" and isinstance(m.ast, ast.AugAssign) and isinstance(m.ast.target, ast.Subscript) and dotted(m.ast.target.value)}
     if T not in tcands and len(tcands) == 1:
         T = next(iter(tcands))
+    elif T not in tcands:
+        raise AnalysisError(f"{site}: cannot identify the per-task step totals among {sorted(tcands)} (unrecognised form)")
     S = [n for n in cfg.nodes if n.kind == "stmt" and n.ast is not None and any(isinstance(c, ast.Call) and isinstance(c.func, ast.Name) and c.func.id == "train_st" for c in ast.walk(n.ast))]
     ck.need(len(S) == 1, f"{site}: expected exactly one train_st call")
     S = S[0]
@@ -1068,6 +1892,8 @@ def r5_budget_exact(ck, repo, nf: NF, qual: str, budget: str):
                 raise AnalysisError(f"{site}: several episode-length sums {qa} in the step accounting (unrecognised idiom)")
             okg = (gend - g0 - Q).is_zero()
             okt = (dT - Q).is_zero()
+            if not (okg and okt) and not _accounting_terms(gend - g0, dT, allowed={"G0", budget} | Q.atoms()):
+                raise AnalysisError(f"{site}: after the single-task call the counters move by dG = {(gend - g0).canon()[:60]}, dT = {dT.canon()[:60]} (unrecognised form)")
             sig = (kind, "normal", (gend - g0).canon(), dT.canon())
             if sig in seen:
                 continue
@@ -1077,6 +1903,8 @@ def r5_budget_exact(ck, repo, nf: NF, qual: str, budget: str):
                   loc(mi, node.ast) if node.ast is not None else loc(mi, fn), None if okg and okt else _compress(cfg, path))
         else:
             okt = (g0 + dT - B).is_zero()
+            if not (okt and (gend - B).is_zero()) and not _accounting_terms(gend, dT, allowed={"G0", budget} | Q.atoms() | {a_ for a_ in (gend - g0).atoms() | dT.atoms() if a_.startswith("sum(") and a_.endswith("length_queue)")}):
+                raise AnalysisError(f"{site}: after a call that ran into the budget the counters are G = {gend.canon()[:60]}, dT = {dT.canon()[:60]} (unrecognised form)")
             ret_uses_g = node.kind == "stmt" and isinstance(node.ast, ast.Return) and node.ast.value is not None and any(isinstance(x, ast.Name) and x.id == G for x in ast.walk(node.ast.value))
             needs_g = kind in ("next-call", "loop-header") or ret_uses_g
             okg = (gend - B).is_zero() or not needs_g
@@ -1096,6 +1924,12 @@ def r5_budget_exact(ck, repo, nf: NF, qual: str, budget: str):
         if (isinstance(tg, ast.Name) and tg.id == G) or is_T(tg):
             ok = n.id in visited_nodes
             ck.ob("R5-scheduler", site, f"budget-exact:write-on-segment:{short(n.ast, 40)}", ok, f"`{short(n.ast, 60)}` follows the single-task call", "" if ok else "a counter is modified before the single-task call of its iteration: not covered by the executed-steps accounting", loc(mi, n.ast))
+
+
+def _accounting_terms(*polys, allowed) -> bool:
+    """The counters are polynomials over the documented quantities only (starting count, recorded episode lengths, budget): a wrong
+    value is then a wrong value, not something this analysis failed to read."""
+    return all(not _unread(p_) and p_.atoms() <= set(allowed) for p_ in polys)
 
 
 def _stable(txt):
@@ -1144,6 +1978,7 @@ def run(ck, repo: Repo, tier: str):
     ck.guard(r5_ducb, ck, repo, nf)
     ck.guard(r5_ducb_mean, ck, repo, nf)
     for q, b in MT_LOOPS.items():
+        b = _role_param(repo.func(q), q, b) or b
         ck.guard(r5_budget_symbolic, ck, repo, nf, q, b)
         if not q.endswith("train_uts"):
             ck.guard(r5_budget_exact, ck, repo, nf, q, b)
@@ -1192,6 +2027,28 @@ MUTANTS = [
     {"id": "c11-amt-guard-le", "file": _A + "active_mt.py", "rule": "R2", "find": "    while global_step < total_timesteps:", "replace": "    while global_step <= total_timesteps:"},
     {"id": "c11-uts-counter-not-passed", "file": _A + "uniform_task_sampling.py", "rule": "R5", "find": "            global_step=global_step,\n", "replace": "            global_step=0,\n"},
     {"id": "c11-qlearning-two-steps", "file": _A + "q_learning.py", "rule": "R2", "find": "        next_action = greedy_policy(q_table, next_observation)\n", "replace": "        next_action = greedy_policy(q_table, next_observation)\n        if epsilon > 1.0:\n            env.step(int(next_action))\n"},
+    # violation paths of the semantically read rules (audit): each one differs from a BENIGN entry below only by the behaviour
+    {"id": "c11-td3-guard-in-body-le", "file": _A + "td3.py", "rule": "R2-budget", "find": "    while step < total_timesteps:\n", "replace": "    while True:\n        if step > total_timesteps:\n            break\n"},
+    {"id": "c11-td3-guard-arith-le", "file": _A + "td3.py", "rule": "R2-budget", "find": "    while step < total_timesteps:", "replace": "    while step <= total_timesteps + 1:"},
+    {"id": "c11-qlearning-range-plus1", "file": _A + "q_learning.py", "rule": "R2-budget", "find": "    for i in trange(total_timesteps, disable=not progress_bar):", "replace": "    for i in trange(total_timesteps + 1, disable=not progress_bar):"},
+    {"id": "c11-td3-step-repeated-in-inner-loop", "file": _A + "td3.py", "rule": "R2-budget", "find": "        next_obs, reward, termination, truncated, info = env.step(action)\n        steps_per_episode += 1\n", "replace": "        for _repeat in range(2):\n            next_obs, reward, termination, truncated, info = env.step(action)\n        steps_per_episode += 1\n"},
+    {"id": "c11-td3-done-flag-terminated-only", "file": _A + "td3.py", "rule": "R3", "find": "        if termination or truncated:\n            if logger is not None:\n                logger.record_stat(\"return\"", "replace": "        done = bool(termination)\n        if done:\n            if logger is not None:\n                logger.record_stat(\"return\""},
+    {"id": "c11-td3-gate-five-early", "file": _A + "td3.py", "rule": "R4", "find": "        if step >= learning_starts:\n            for _ in range(gradient_steps):", "replace": "        if step + 5 >= learning_starts:\n            for _ in range(gradient_steps):"},
+    {"id": "c11-td3-episodes-lt", "file": _A + "td3.py", "rule": "R2-episodes", "find": "episode_idx >= total_episodes", "replace": "episode_idx < total_episodes"},
+    {"id": "c11-td3-episodes-gt-from-zero", "file": _A + "td3.py", "rule": "R2-episodes", "find": "episode_idx >= total_episodes", "replace": "episode_idx + 1 > total_episodes + 1"},
+    {"id": "c11-td3-limit-tested-when-not-done", "file": _A + "td3.py", "rule": "R2-episodes", "find": "            episode_idx += 1\n            if total_episodes is not None and episode_idx >= total_episodes:\n                step += 1\n                break\n            if logger is not None:\n                logger.start_new_episode()\n            obs, _ = env.reset()\n            steps_per_episode = 0\n            accumulated_reward = 0.0\n        else:\n            obs = next_obs\n",
+     "replace": "            episode_idx += 1\n            if logger is not None:\n                logger.start_new_episode()\n            obs, _ = env.reset()\n            steps_per_episode = 0\n            accumulated_reward = 0.0\n        else:\n            if total_episodes is not None and episode_idx >= total_episodes:\n                step += 1\n                break\n            obs = next_obs\n"},
+    {"id": "c11-protocol-flag-not-flipped", "file": "rl_blox/blox/multitask.py", "rule": "R5", "find": "        self.waiting_for_reward = True\n", "replace": "        self.waiting_for_reward = False\n"},
+    {"id": "c11-protocol-assert-inverted", "file": "rl_blox/blox/multitask.py", "rule": "R5", "find": "        assert self.waiting_for_reward, \"Cannot assign reward to any target\"\n", "replace": "        assert not self.waiting_for_reward, \"Cannot assign reward to any target\"\n"},
+    {"id": "c11-protocol-assert-dropped", "file": "rl_blox/blox/multitask.py", "rule": "R5", "find": "        assert self.waiting_for_reward, \"Cannot assign reward to any target\"\n", "replace": ""},
+    {"id": "c11-selector-local-raw-index", "file": "rl_blox/blox/multitask.py", "rule": "R5", "find": "        return self.tasks[self.chosen_arm]", "replace": "        n_tasks = len(self.tasks)\n        selected = self.i % n_tasks\n        return selected"},
+    {"id": "c11-amt-subcall-without-budget", "file": _A + "active_mt.py", "rule": "R5", "find": "            total_timesteps=total_timesteps,\n            total_episodes=scheduling_interval,", "replace": "            total_episodes=scheduling_interval,"},
+    {"id": "c11-ducb-numerator-unfiltered", "file": "rl_blox/blox/mapb.py", "rule": "R5", "find": "                if self.chosen_arms[s] == arm_idx\n", "replace": ""},
+    {"id": "c11-ducb-refresh-before-reward", "file": "rl_blox/blox/mapb.py", "rule": "R5", "find": "        self.rewards.append(r)\n        self._episode_finished()", "replace": "        self._episode_finished()\n        self.rewards.append(r)"},
+    {"id": "c11-ducb-choice-not-recorded", "file": "rl_blox/blox/mapb.py", "rule": "R5", "find": "        self.chosen_arms.append(arm_idx)\n        return arm_idx", "replace": "        return arm_idx"},
+    {"id": "c11-ducb-round-robin-modulus", "file": "rl_blox/blox/mapb.py", "rule": "R5", "find": "            arm_idx = len(self.rewards) % self.n_arms", "replace": "            arm_idx = len(self.rewards) % (self.n_arms + 1)"},
+    {"id": "c11-ducb-argmax-of-mean-only", "file": "rl_blox/blox/mapb.py", "rule": "R5", "find": "            ducb = mean + padding", "replace": "            ducb = mean"},
+    {"id": "c11-ducb-threshold-le", "file": "rl_blox/blox/mapb.py", "rule": "R5", "find": "        if len(self.rewards) < 2 * self.n_arms:", "replace": "        if len(self.rewards) <= 2 * self.n_arms:"},
 ]
 BENIGN = [
     {"id": "c11-b-td3-rename-counter", "file": _A + "td3.py", "all": True, "find": "episode_idx", "replace": "n_episodes_done"},
@@ -1206,4 +2063,26 @@ BENIGN = [
      "replace": "            steps = sum(env_with_stats.length_queue)\n            if len(env_with_stats.return_queue) != scheduling_interval:\n                steps = b1 - global_step\n            training_steps[task_id] += steps\n            global_step += steps\n            progress.update(steps)\n"},
     {"id": "c11-b-ducb-window-300", "file": "rl_blox/blox/mapb.py", "edits": [("                for s in range(max(0, t - 250), t)\n", "                for s in range(max(0, t - 300), t)\n"), ("        for s in range(max(0, t - 250), t):\n", "        for k in range(max(0, t - 300), t):\n"), ("            self.discounted_frequencies[self.chosen_arms[s]] += self.gamma ** (\n                t - 1 - s\n            )", "            self.discounted_frequencies[self.chosen_arms[k]] += self.gamma ** (\n                t - k - 1\n            )")]},
     {"id": "c11-b-smt-steps-local", "file": _A + "smt.py", "nth": 0, "find": "            steps = sum(env_with_stats.length_queue)\n            training_steps[task_id] += steps\n            global_step += steps\n", "replace": "            steps = sum(env_with_stats.length_queue)\n            global_step += steps\n            training_steps[task_id] += steps\n"},
+    # the same behaviour written differently (audit): comparisons by arithmetic / orientation / alias, flags through value-transparent wrappers,
+    # locals, guard clauses, explicit base calls, a method moved to a mixin, renamed locals
+    {"id": "c11-b-td3-guard-arith", "file": _A + "td3.py", "find": "    while step < total_timesteps:", "replace": "    while step + 1 <= total_timesteps:"},
+    {"id": "c11-b-td3-guard-in-body", "file": _A + "td3.py", "find": "    while step < total_timesteps:\n", "replace": "    while True:\n        if step >= total_timesteps:\n            break\n"},
+    {"id": "c11-b-td3-guard-alias", "file": _A + "td3.py", "find": "    while step < total_timesteps:", "replace": "    budget = int(total_timesteps)\n    while budget - step > 0:"},
+    {"id": "c11-b-qlearning-range-alias", "file": _A + "q_learning.py", "find": "    for i in trange(total_timesteps, disable=not progress_bar):", "replace": "    n_steps = int(total_timesteps)\n    for i in trange(0, n_steps, disable=not progress_bar):"},
+    {"id": "c11-b-td3-counter-reassigned", "file": _A + "td3.py", "edits": [("    step = global_step\n", "    step = int(global_step)\n"), ("        bar.update()\n        step += 1\n", "        bar.update()\n        step = 1 + step\n")]},
+    {"id": "c11-b-td3-gate-arith", "file": _A + "td3.py", "find": "        if step >= learning_starts:\n            for _ in range(gradient_steps):", "replace": "        warmup_steps = int(learning_starts)\n        if step - warmup_steps >= 0:\n            for _ in range(gradient_steps):"},
+    {"id": "c11-b-td3-gate-trip-count", "file": _A + "td3.py", "find": "        if step >= learning_starts:\n            for _ in range(gradient_steps):", "replace": "        n_updates = gradient_steps if step + 1 > learning_starts else 0\n        if True:\n            for _ in range(n_updates):"},
+    {"id": "c11-b-td3-done-bool", "file": _A + "td3.py", "find": "        if termination or truncated:\n            if logger is not None:\n                logger.record_stat(\"return\"", "replace": "        done = bool(termination | truncated)\n        if done:\n            if logger is not None:\n                logger.record_stat(\"return\""},
+    {"id": "c11-b-sac-done-logical-or", "file": _A + "sac.py", "find": "        if termination or truncation:\n            if logger is not None:\n                logger.record_stat(\"return\"", "replace": "        episode_over = bool(np.logical_or(termination, truncation))\n        if episode_over:\n            if logger is not None:\n                logger.record_stat(\"return\""},
+    {"id": "c11-b-td3-episodes-gt-from-one", "file": _A + "td3.py", "edits": [("    episode_idx = 0\n", "    episode_idx = 1\n"), ("episode_idx >= total_episodes", "episode_idx > total_episodes")]},
+    {"id": "c11-b-selector-local-return", "file": "rl_blox/blox/multitask.py", "find": "        return self.tasks[self.i % len(self.tasks)]", "replace": "        tasks = self.tasks\n        task = tasks[self.i % len(tasks)]\n        return task"},
+    {"id": "c11-b-selector-explicit-base-call", "file": "rl_blox/blox/multitask.py", "find": "    def select(self) -> int:\n        super().select()\n        self.i += 1", "replace": "    def select(self) -> int:\n        TaskSelector.select(self)\n        self.i += 1"},
+    {"id": "c11-b-selector-mixin", "file": "rl_blox/blox/multitask.py", "find": "class RoundRobinSelector(TaskSelector):\n    def __init__(self, tasks, **kwargs):\n        super().__init__(tasks)\n        self.i = 0\n\n    def select(self) -> int:\n        super().select()\n        self.i += 1\n        return self.tasks[self.i % len(self.tasks)]\n",
+     "replace": "class _CyclingMixin:\n    def select(self) -> int:\n        super().select()\n        self.i += 1\n        return self.tasks[self.i % len(self.tasks)]\n\n\nclass RoundRobinSelector(_CyclingMixin, TaskSelector):\n    def __init__(self, tasks, **kwargs):\n        super().__init__(tasks)\n        self.i = 0\n"},
+    {"id": "c11-b-protocol-guard-clause", "file": "rl_blox/blox/multitask.py", "edits": [("        assert (\n            not self.waiting_for_reward\n        ), \"You have to provide a reward for the last target\"", "        if self.waiting_for_reward:\n            raise AssertionError(\"You have to provide a reward for the last target\")"),
+                                                                                     ("        assert self.waiting_for_reward, \"Cannot assign reward to any target\"\n        self.waiting_for_reward = False", "        assert reward is not None\n        assert self.waiting_for_reward is True, \"Cannot assign reward to any target\"\n        self.waiting_for_reward = not self.waiting_for_reward")]},
+    {"id": "c11-b-ducb-threshold-le", "file": "rl_blox/blox/mapb.py", "find": "        if len(self.rewards) < 2 * self.n_arms:", "replace": "        if len(self.rewards) <= 2 * self.n_arms - 1:"},
+    {"id": "c11-b-ducb-padding-locals", "file": "rl_blox/blox/mapb.py", "find": "    def _padding_function(self, arm_idx):\n        return (\n            2\n            * self.upper_bound\n            * np.sqrt(\n                self.zeta\n                * np.log(self.total_frequency)\n                / self.discounted_frequencies[arm_idx]\n            )\n        )", "replace": "    def _padding_function(self, arm):\n        ratio = self.zeta * np.log(self.total_frequency) / self.discounted_frequencies[arm]\n        return 2 * self.upper_bound * np.sqrt(ratio)"},
+    {"id": "c11-b-smt-rename-totals", "file": _A + "smt.py", "all": True, "find": "training_steps", "replace": "steps_per_task"},
+    {"id": "c11-b-amt-subcall-int", "file": _A + "active_mt.py", "edits": [("            total_timesteps=total_timesteps,\n            total_episodes=scheduling_interval,", "            total_timesteps=int(total_timesteps),\n            total_episodes=scheduling_interval,"), ("    while global_step < total_timesteps:", "    while total_timesteps >= global_step + 1:")]},
 ]
